@@ -35,6 +35,10 @@
 (*   setthr x      set_thread_call_rcu_data(slot[x])      (x = "NULL")     *)
 (*   setcpu c x    set_cpu_call_rcu_data(c, slot[x])                       *)
 (*   cpu c         environment: the thread now runs on model CPU c         *)
+(*   offline / online   rcu_thread_offline() / rcu_thread_online() (qsbr   *)
+(*                 integration runs; no effect on the abstract flavor)     *)
+(*   createall f   create_all_cpu_call_rcu_data(f)                         *)
+(*   freeall       free_all_cpu_call_rcu_data()                            *)
 (*   free x        call_rcu_data_free(slot[x])                             *)
 (*   barrier       rcu_barrier()                                           *)
 (*   pause/resume  call_rcu_before_fork() / call_rcu_after_fork_parent()   *)
@@ -56,7 +60,7 @@ CONSTANTS Threads,    \* set of scenario thread ids (strings)
           NCpu,       \* number of model CPUs (possible-CPU array length)
           Re,         \* [rcu_head node -> node its callback passes to call_rcu, or "-"]
           Spurious,   \* budget of spurious / EINTR returns of FUTEX_WAIT
-          Mut         \* model-level mutants (subset of {"nogp","gpfirst","nowake","nohandover","earlycount","nomutex","noref","norlock"})
+          Mut         \* model-level mutants (subset of {"nogp","gpfirst","nowake","nohandover","earlycount","nomutex","noref","norlock","nofasync"})
 
 NULL == "NULL"
 RT == 1  STOP == 4  STOPPED == 8  PAUSE == 16  PAUSED == 32
@@ -112,7 +116,7 @@ FlOf == [f \in Flushers |-> CHOOSE t \in Procs : FlId(t) = f]
 NoOp == [op |-> "none", n |-> "-", x |-> "-", f |-> 0, c |-> 0]
 Without(s, x) == SelectSeq(s, LAMBDA y : y # x)
 NoSnap == [p \in Procs |-> 0]
-HasCpuOps == \E o \in AllOps : o.op = "setcpu"
+HasCpuOps == \E o \in AllOps : o.op \in {"setcpu", "createall"}
 FName(n) == IF n \in Works THEN "barrier_complete" ELSE IF Re[n] = "-" THEN "cb" ELSE "re"
 
 (* --algorithm callrcu {
@@ -175,6 +179,10 @@ variables
   bk = [t \in Procs |-> NULL],              \* rcu_barrier / _rcu_barrier_complete: completion
   regs = [t \in Procs |-> <<>>],            \* list traversal: call_rcu_data_list as seen under the mutex
   kk = [t \in Procs |-> 1],                 \* loop index
+  sci = [t \in Procs |-> 0],                \* set_cpu_call_rcu_data: cpu
+  ci = [t \in Procs |-> 0],                 \* create_all / free_all: cpu loop index
+  cac = [t \in Procs |-> NULL],             \* create_all: crdp just created
+  fa = [t \in Procs |-> [i \in 0..(NCpu - 1) |-> NULL]],   \* free_all: local crdp[] array
   gps = [t \in Procs |-> NoSnap];           \* synchronize_rcu: sections to wait for
 
 define {
@@ -304,13 +312,13 @@ cr_unl: if ("norlock" \notin Mut) {                              \* _rcu_read_un
 }
 
 \* ------------------------------------------------------------------ set_cpu_call_rcu_data(opx.c, crdp = en)
-procedure set_cpu() {
+procedure set_cpu() {   \* (cpu = sci, crdp = en)
 sc_lock: Lock();                                                 \* call_rcu_lock(&call_rcu_mutex); alloc_cpu_call_rcu_data()
         if (cpulen # 0) { goto sc_chk };
 sc_len: cpulen := NCpu;                                          \* cpus_array_len = get_possible_cpus_array_len(); p = malloc(); memset()
 sc_arr: St("pcpu", "ARR");                                       \* rcu_set_pointer(&per_cpu_call_rcu_data, p)
-sc_chk: if (Rd(self, PSlot(opx[self].c)) # NULL /\ en[self] # NULL) { res[self] := "EEXIST"; goto sc_unl };   \* per_cpu_call_rcu_data[cpu] != NULL && crdp != NULL
-sc_st:  St(PSlot(opx[self].c), en[self]);                        \* rcu_set_pointer(&per_cpu_call_rcu_data[cpu], crdp)
+sc_chk: if (Rd(self, PSlot(sci[self])) # NULL /\ en[self] # NULL) { res[self] := "EEXIST"; goto sc_unl };   \* per_cpu_call_rcu_data[cpu] != NULL && crdp != NULL
+sc_st:  St(PSlot(sci[self]), en[self]);                        \* rcu_set_pointer(&per_cpu_call_rcu_data[cpu], crdp)
         res[self] := "0";
 sc_unl: Unlock();
         return;
@@ -361,6 +369,65 @@ f_free: if (alive[fc[self]] # "yes") { Fail("call_rcu_data freed twice") };   \*
         alive[fc[self]] := "freed";
         acc := Ev(self, "free", fc[self], "-", "-", "-");
         return;
+}
+
+\* ------------------------------------------------------------------ create_all_cpu_call_rcu_data(opx.f)
+procedure create_all() {
+ca_lock: Lock();                                                 \* call_rcu_lock(&call_rcu_mutex); alloc_cpu_call_rcu_data()
+        if (cpulen # 0) { goto ca_unl };
+ca_len: cpulen := NCpu;                                          \* cpus_array_len = get_possible_cpus_array_len(); p = malloc(); memset()
+ca_arr: St("pcpu", "ARR");                                       \* rcu_set_pointer(&per_cpu_call_rcu_data, p)
+ca_unl: Unlock();                                                \* call_rcu_unlock(&call_rcu_mutex)
+        ci[self] := 0;                                           \* (cpus_array_len > 0, per_cpu_call_rcu_data != NULL: written under the mutex just released)
+ca_top: if (ci[self] >= NCpu) { res[self] := "0"; return };      \* for (i = 0; i < cpus_array_len; i++)
+ca_lk:  Lock();                                                  \*   call_rcu_lock(&call_rcu_mutex)
+ca_g1:  Ldx("pcpu");                                             \*   get_cpu_call_rcu_data(i): pcpu_crdp = rcu_dereference(per_cpu_call_rcu_data)
+ca_g2:  Ldx(PSlot(ci[self]));                                    \*     rcu_dereference(pcpu_crdp[i])
+        if (Rd(self, PSlot(ci[self])) # NULL) { goto ca_skip }
+        else {
+          cidef[self] := FALSE; cifl[self] := opx[self].f;
+          call data_init();                                      \*   crdp = __create_call_rcu_data(flags, i)
+        };
+ca_cu:  Unlock();                                                \*   call_rcu_unlock(&call_rcu_mutex)
+        cac[self] := newc[self]; en[self] := newc[self]; sci[self] := ci[self];
+        call set_cpu();                                          \*   ret = set_cpu_call_rcu_data(i, crdp)
+ca_chk: if (res[self] = "EEXIST") {                              \*   if (ret) call_rcu_data_free(crdp)   ("it has been created by other thread")
+          fc[self] := cac[self];
+          call data_free();
+        };
+ca_nx:  ci[self] := ci[self] + 1; cac[self] := NULL;
+        goto ca_top;
+ca_skip: Unlock();                                               \*   call_rcu_unlock(&call_rcu_mutex); continue
+        ci[self] := ci[self] + 1;
+        goto ca_top;
+}
+
+\* ------------------------------------------------------------------ free_all_cpu_call_rcu_data()
+procedure free_all() {
+fa_len: if (cpulen = 0) { res[self] := "-"; return }              \* if (cpus_array_len <= 0) return     (plain read, no mutex); crdp = malloc()
+        else { ci[self] := 0 };
+fa_top: if (ci[self] >= NCpu) { goto fa_sync };                  \* for (cpu = 0; cpu < cpus_array_len; cpu++)
+fa_g1:  Ldx("pcpu");                                             \*   crdp[cpu] = get_cpu_call_rcu_data(cpu): rcu_dereference(per_cpu_call_rcu_data)
+        if (Rd(self, "pcpu") = NULL) { goto fa_nx };
+fa_g2:  Ldx(PSlot(ci[self]));                                    \*     rcu_dereference(pcpu_crdp[cpu])
+        fa[self][ci[self]] := Rd(self, PSlot(ci[self]));
+        if (Rd(self, PSlot(ci[self])) = NULL) { goto fa_nx }     \*   if (crdp[cpu] == NULL) continue
+        else {
+          en[self] := NULL; sci[self] := ci[self];
+          call set_cpu();                                        \*   set_cpu_call_rcu_data(cpu, NULL)
+        };
+fa_nx:  ci[self] := ci[self] + 1;
+        goto fa_top;
+fa_sync: if ("nofasync" \notin Mut) { call synchronize_rcu() };                               \* synchronize_rcu(): call_rcu sites acting as readers of the call_rcu_data
+fa_f0:  ci[self] := 0;
+fa_ftop: if (ci[self] >= NCpu) { res[self] := "-"; fa[self] := [i \in 0..(NCpu - 1) |-> NULL]; return };   \* for (cpu...) ; free(crdp)
+fa_fchk: if (fa[self][ci[self]] = NULL) { goto fa_fnx }          \*   if (crdp[cpu] == NULL) continue
+        else {
+          fc[self] := fa[self][ci[self]];
+          call data_free();                                      \*   call_rcu_data_free(crdp[cpu])
+        };
+fa_fnx: ci[self] := ci[self] + 1;
+        goto fa_ftop;
 }
 
 \* ------------------------------------------------------------------ _rcu_barrier_complete(&work->head), work = cur, completion = bk
@@ -578,12 +645,15 @@ t_top:  while (pci[self] <= Len(Prog[self])) {
           } else if (opx[self].op = "cpu") {
             mycpu[self] := opx[self].c; pci[self] := pci[self] + 1;
             goto t_top
+          } else if (opx[self].op \in {"offline", "online"}) {     \* qsbr: rcu_thread_offline() / rcu_thread_online(); nothing at this level
+            pci[self] := pci[self] + 1;
+            goto t_top
           } else {
             if (opx[self].op = "call") { cn[self] := opx[self].n; snap[opx[self].n] := cs }
             else if (opx[self].op = "barrier") {
               bk[self] := KName(self, pci[self]); alive[KName(self, pci[self])] := "yes"; bsnap[self] := queued }
             else if (opx[self].op = "free") { fc[self] := slot[opx[self].x] }
-            else if (opx[self].op = "setcpu") { en[self] := IF opx[self].x = NULL THEN NULL ELSE slot[opx[self].x] }
+            else if (opx[self].op = "setcpu") { en[self] := IF opx[self].x = NULL THEN NULL ELSE slot[opx[self].x]; sci[self] := opx[self].c }
             else if (opx[self].op = "create") { cidef[self] := FALSE; cifl[self] := opx[self].f };
             res[self] := "-";
             acc := Ev(self, "call", IF opx[self].op = "call" THEN opx[self].n ELSE IF opx[self].op \in {"free", "setcpu", "setthr"} /\ opx[self].x # NULL THEN slot[opx[self].x] ELSE "-",
@@ -594,6 +664,8 @@ t_top:  while (pci[self] <= Len(Prog[self])) {
             else if (opx[self].op = "create") { goto t_crl }
             else if (opx[self].op = "setthr") { tcrd[self] := IF opx[self].x = NULL THEN NULL ELSE slot[opx[self].x]; goto t_ret }
             else if (opx[self].op = "setcpu") { call set_cpu() }
+            else if (opx[self].op = "createall") { call create_all() }
+            else if (opx[self].op = "freeall") { call free_all() }
             else if (opx[self].op = "free") { call data_free() }
             else if (opx[self].op = "barrier") { call barrier() }
             else if (opx[self].op = "pause") { call before_fork() }
@@ -620,7 +692,7 @@ VARIABLES pc, mem, sb, lock, acc, fsleep, wloc, spur, wkind, crlist, nhelp,
           started, cpulen, tcrd, mycpu, slot, func, rnest, cs, ncs, cnt, snap, 
           queued, fin, bsnap, alive, uaf, errs, pci, opx, iv, pa, hd, tl, old, 
           cur, nx, cbc, isrt, en, ec, wc, res, gd, fc, dc, newc, cidef, cifl, 
-          cn, bk, regs, kk, gps, stack
+          cn, bk, regs, kk, sci, ci, cac, fa, gps, stack
 
 (* define statement *)
 LastIdx(t, loc) == LET S == {i \in DOMAIN sb[t] : sb[t][i][1] = loc} IN
@@ -637,7 +709,7 @@ vars == << pc, mem, sb, lock, acc, fsleep, wloc, spur, wkind, crlist, nhelp,
            started, cpulen, tcrd, mycpu, slot, func, rnest, cs, ncs, cnt, 
            snap, queued, fin, bsnap, alive, uaf, errs, pci, opx, iv, pa, hd, 
            tl, old, cur, nx, cbc, isrt, en, ec, wc, res, gd, fc, dc, newc, 
-           cidef, cifl, cn, bk, regs, kk, gps, stack >>
+           cidef, cifl, cn, bk, regs, kk, sci, ci, cac, fa, gps, stack >>
 
 ProcSet == (Flushers) \cup ({"W:env"}) \cup (Helpers) \cup (Threads)
 
@@ -696,6 +768,10 @@ Init == (* Global variables *)
         /\ bk = [t \in Procs |-> NULL]
         /\ regs = [t \in Procs |-> <<>>]
         /\ kk = [t \in Procs |-> 1]
+        /\ sci = [t \in Procs |-> 0]
+        /\ ci = [t \in Procs |-> 0]
+        /\ cac = [t \in Procs |-> NULL]
+        /\ fa = [t \in Procs |-> [i \in 0..(NCpu - 1) |-> NULL]]
         /\ gps = [t \in Procs |-> NoSnap]
         /\ stack = [self \in ProcSet |-> << >>]
         /\ pc = [self \in ProcSet |-> CASE self \in Flushers -> "fl"
@@ -713,7 +789,8 @@ gp_b(self) == /\ pc[self] = "gp_b"
                               rnest, cs, ncs, cnt, snap, queued, fin, bsnap, 
                               alive, uaf, errs, pci, opx, iv, pa, hd, tl, old, 
                               cur, nx, cbc, isrt, en, ec, wc, res, gd, fc, dc, 
-                              newc, cidef, cifl, cn, bk, regs, kk, stack >>
+                              newc, cidef, cifl, cn, bk, regs, kk, sci, ci, 
+                              cac, fa, stack >>
 
 gp_e(self) == /\ pc[self] = "gp_e"
               /\ ~StillOpen(gps[self])
@@ -725,7 +802,8 @@ gp_e(self) == /\ pc[self] = "gp_e"
                               rnest, cs, ncs, cnt, snap, queued, fin, bsnap, 
                               alive, uaf, errs, pci, opx, iv, pa, hd, tl, old, 
                               cur, nx, cbc, isrt, en, ec, wc, res, gd, fc, dc, 
-                              newc, cidef, cifl, cn, bk, regs, kk, gps >>
+                              newc, cidef, cifl, cn, bk, regs, kk, sci, ci, 
+                              cac, fa, gps >>
 
 synchronize_rcu(self) == gp_b(self) \/ gp_e(self)
 
@@ -743,7 +821,7 @@ wk_fl(self) == /\ pc[self] = "wk_fl"
                                fin, bsnap, alive, errs, pci, opx, iv, pa, hd, 
                                tl, old, cur, nx, cbc, isrt, en, ec, wc, res, 
                                gd, fc, dc, newc, cidef, cifl, cn, bk, regs, kk, 
-                               gps >>
+                               sci, ci, cac, fa, gps >>
 
 wk_mb(self) == /\ pc[self] = "wk_mb"
                /\ Drained(self)
@@ -755,7 +833,7 @@ wk_mb(self) == /\ pc[self] = "wk_mb"
                                fin, bsnap, alive, uaf, errs, pci, opx, iv, pa, 
                                hd, tl, old, cur, nx, cbc, isrt, en, ec, wc, 
                                res, gd, fc, dc, newc, cidef, cifl, cn, bk, 
-                               regs, kk, gps, stack >>
+                               regs, kk, sci, ci, cac, fa, gps, stack >>
 
 wk_ld(self) == /\ pc[self] = "wk_ld"
                /\ uaf' = (uaf \/ Dead((FutexOf(wc[self]))))
@@ -771,7 +849,7 @@ wk_ld(self) == /\ pc[self] = "wk_ld"
                                fin, bsnap, alive, errs, pci, opx, iv, pa, hd, 
                                tl, old, cur, nx, cbc, isrt, en, ec, wc, res, 
                                gd, fc, dc, newc, cidef, cifl, cn, bk, regs, kk, 
-                               gps >>
+                               sci, ci, cac, fa, gps >>
 
 wk_st(self) == /\ pc[self] = "wk_st"
                /\ IF TSO
@@ -788,7 +866,8 @@ wk_st(self) == /\ pc[self] = "wk_st"
                                cs, ncs, cnt, snap, queued, fin, bsnap, alive, 
                                errs, pci, opx, iv, pa, hd, tl, old, cur, nx, 
                                cbc, isrt, en, ec, wc, res, gd, fc, dc, newc, 
-                               cidef, cifl, cn, bk, regs, kk, gps, stack >>
+                               cidef, cifl, cn, bk, regs, kk, sci, ci, cac, fa, 
+                               gps, stack >>
 
 wk_fw(self) == /\ pc[self] = "wk_fw"
                /\ Drained(self)
@@ -802,7 +881,8 @@ wk_fw(self) == /\ pc[self] = "wk_fw"
                                cs, ncs, cnt, snap, queued, fin, bsnap, alive, 
                                errs, pci, opx, iv, pa, hd, tl, old, cur, nx, 
                                cbc, isrt, en, ec, wc, res, gd, fc, dc, newc, 
-                               cidef, cifl, cn, bk, regs, kk, gps >>
+                               cidef, cifl, cn, bk, regs, kk, sci, ci, cac, fa, 
+                               gps >>
 
 wake(self) == wk_fl(self) \/ wk_mb(self) \/ wk_ld(self) \/ wk_st(self)
                  \/ wk_fw(self)
@@ -816,7 +896,8 @@ e_mb(self) == /\ pc[self] = "e_mb"
                               rnest, cs, ncs, cnt, snap, queued, fin, bsnap, 
                               alive, uaf, errs, pci, opx, iv, pa, hd, tl, old, 
                               cur, nx, cbc, isrt, en, ec, wc, res, gd, fc, dc, 
-                              newc, cidef, cifl, cn, bk, regs, kk, gps, stack >>
+                              newc, cidef, cifl, cn, bk, regs, kk, sci, ci, 
+                              cac, fa, gps, stack >>
 
 e_xchg(self) == /\ pc[self] = "e_xchg"
                 /\ Drained(self)
@@ -830,8 +911,8 @@ e_xchg(self) == /\ pc[self] = "e_xchg"
                                 func, rnest, cs, ncs, cnt, snap, queued, fin, 
                                 bsnap, alive, errs, pci, opx, iv, pa, hd, tl, 
                                 cur, nx, cbc, isrt, en, ec, wc, res, gd, fc, 
-                                dc, newc, cidef, cifl, cn, bk, regs, kk, gps, 
-                                stack >>
+                                dc, newc, cidef, cifl, cn, bk, regs, kk, sci, 
+                                ci, cac, fa, gps, stack >>
 
 e_link(self) == /\ pc[self] = "e_link"
                 /\ IF TSO
@@ -849,7 +930,8 @@ e_link(self) == /\ pc[self] = "e_link"
                                 rnest, cs, ncs, cnt, snap, queued, fin, bsnap, 
                                 alive, errs, pci, opx, iv, pa, hd, tl, cur, nx, 
                                 cbc, isrt, en, ec, wc, res, gd, fc, dc, newc, 
-                                cidef, cifl, cn, bk, regs, kk, gps, stack >>
+                                cidef, cifl, cn, bk, regs, kk, sci, ci, cac, 
+                                fa, gps, stack >>
 
 e_qlen(self) == /\ pc[self] = "e_qlen"
                 /\ Drained(self)
@@ -866,7 +948,8 @@ e_qlen(self) == /\ pc[self] = "e_qlen"
                                 func, rnest, cs, ncs, cnt, snap, queued, fin, 
                                 bsnap, alive, errs, pci, opx, iv, pa, hd, tl, 
                                 old, cur, nx, cbc, isrt, en, ec, res, gd, fc, 
-                                dc, newc, cidef, cifl, cn, bk, regs, kk, gps >>
+                                dc, newc, cidef, cifl, cn, bk, regs, kk, sci, 
+                                ci, cac, fa, gps >>
 
 enqueue(self) == e_mb(self) \/ e_xchg(self) \/ e_link(self) \/ e_qlen(self)
 
@@ -890,7 +973,7 @@ ci_new(self) == /\ pc[self] = "ci_new"
                                 ncs, cnt, snap, queued, fin, bsnap, errs, pci, 
                                 opx, iv, pa, hd, tl, old, cur, nx, cbc, isrt, 
                                 en, ec, wc, res, gd, fc, dc, cidef, cifl, cn, 
-                                bk, regs, kk, gps, stack >>
+                                bk, regs, kk, sci, ci, cac, fa, gps, stack >>
 
 ci_pub(self) == /\ pc[self] = "ci_pub"
                 /\ IF cidef[self]
@@ -910,8 +993,8 @@ ci_pub(self) == /\ pc[self] = "ci_pub"
                                 rnest, cs, ncs, cnt, snap, queued, fin, bsnap, 
                                 alive, errs, pci, opx, iv, pa, hd, tl, old, 
                                 cur, nx, cbc, isrt, en, ec, wc, res, gd, fc, 
-                                dc, newc, cidef, cifl, cn, bk, regs, kk, gps, 
-                                stack >>
+                                dc, newc, cidef, cifl, cn, bk, regs, kk, sci, 
+                                ci, cac, fa, gps, stack >>
 
 ci_spawn(self) == /\ pc[self] = "ci_spawn"
                   /\ Drained(self) \/ Tracing
@@ -925,7 +1008,7 @@ ci_spawn(self) == /\ pc[self] = "ci_spawn"
                                   bsnap, alive, uaf, errs, pci, opx, iv, pa, 
                                   hd, tl, old, cur, nx, cbc, isrt, en, ec, wc, 
                                   res, gd, fc, dc, newc, cidef, cifl, cn, bk, 
-                                  regs, kk, gps >>
+                                  regs, kk, sci, ci, cac, fa, gps >>
 
 data_init(self) == ci_new(self) \/ ci_pub(self) \/ ci_spawn(self)
 
@@ -944,7 +1027,7 @@ gd_ld(self) == /\ pc[self] = "gd_ld"
                                fin, bsnap, alive, errs, pci, opx, iv, pa, hd, 
                                tl, old, cur, nx, cbc, isrt, en, ec, wc, res, 
                                fc, dc, newc, cidef, cifl, cn, bk, regs, kk, 
-                               gps >>
+                               sci, ci, cac, fa, gps >>
 
 gd_lock(self) == /\ pc[self] = "gd_lock"
                  /\ Drained(self) /\ lock = "free"
@@ -964,7 +1047,8 @@ gd_lock(self) == /\ pc[self] = "gd_lock"
                                  func, rnest, cs, ncs, cnt, snap, queued, fin, 
                                  bsnap, alive, uaf, errs, pci, opx, iv, pa, hd, 
                                  tl, old, cur, nx, cbc, isrt, en, ec, wc, res, 
-                                 gd, fc, dc, newc, cn, bk, regs, kk, gps >>
+                                 gd, fc, dc, newc, cn, bk, regs, kk, sci, ci, 
+                                 cac, fa, gps >>
 
 gd_unl(self) == /\ pc[self] = "gd_unl"
                 /\ gd' = [gd EXCEPT ![self] = Rd(self, "dflt")]
@@ -979,7 +1063,7 @@ gd_unl(self) == /\ pc[self] = "gd_unl"
                                 bsnap, alive, uaf, errs, pci, opx, iv, pa, hd, 
                                 tl, old, cur, nx, cbc, isrt, en, ec, wc, res, 
                                 fc, dc, newc, cidef, cifl, cn, bk, regs, kk, 
-                                gps >>
+                                sci, ci, cac, fa, gps >>
 
 get_default(self) == gd_ld(self) \/ gd_lock(self) \/ gd_unl(self)
 
@@ -1006,8 +1090,8 @@ cr_lock(self) == /\ pc[self] = "cr_lock"
                                  slot, func, cnt, snap, queued, fin, bsnap, 
                                  alive, uaf, errs, pci, opx, iv, pa, hd, tl, 
                                  old, cur, nx, cbc, isrt, en, wc, res, gd, fc, 
-                                 dc, newc, cidef, cifl, cn, bk, regs, kk, gps, 
-                                 stack >>
+                                 dc, newc, cidef, cifl, cn, bk, regs, kk, sci, 
+                                 ci, cac, fa, gps, stack >>
 
 cr_len(self) == /\ pc[self] = "cr_len"
                 /\ IF cpulen = 0
@@ -1019,7 +1103,7 @@ cr_len(self) == /\ pc[self] = "cr_len"
                                 fin, bsnap, alive, uaf, errs, pci, opx, iv, pa, 
                                 hd, tl, old, cur, nx, cbc, isrt, en, ec, wc, 
                                 res, gd, fc, dc, newc, cidef, cifl, cn, bk, 
-                                regs, kk, gps, stack >>
+                                regs, kk, sci, ci, cac, fa, gps, stack >>
 
 cr_pc(self) == /\ pc[self] = "cr_pc"
                /\ uaf' = (uaf \/ Dead("pcpu"))
@@ -1033,7 +1117,7 @@ cr_pc(self) == /\ pc[self] = "cr_pc"
                                fin, bsnap, alive, errs, pci, opx, iv, pa, hd, 
                                tl, old, cur, nx, cbc, isrt, en, ec, wc, res, 
                                gd, fc, dc, newc, cidef, cifl, cn, bk, regs, kk, 
-                               gps, stack >>
+                               sci, ci, cac, fa, gps, stack >>
 
 cr_pcs(self) == /\ pc[self] = "cr_pcs"
                 /\ uaf' = (uaf \/ Dead((PSlot(mycpu[self]))))
@@ -1049,7 +1133,7 @@ cr_pcs(self) == /\ pc[self] = "cr_pcs"
                                 fin, bsnap, alive, errs, pci, opx, iv, pa, hd, 
                                 tl, old, cur, nx, cbc, isrt, en, wc, res, gd, 
                                 fc, dc, newc, cidef, cifl, cn, bk, regs, kk, 
-                                gps, stack >>
+                                sci, ci, cac, fa, gps, stack >>
 
 cr_def(self) == /\ pc[self] = "cr_def"
                 /\ stack' = [stack EXCEPT ![self] = << [ procedure |->  "get_default",
@@ -1062,7 +1146,7 @@ cr_def(self) == /\ pc[self] = "cr_def"
                                 fin, bsnap, alive, uaf, errs, pci, opx, iv, pa, 
                                 hd, tl, old, cur, nx, cbc, isrt, en, ec, wc, 
                                 res, gd, fc, dc, newc, cidef, cifl, cn, bk, 
-                                regs, kk, gps >>
+                                regs, kk, sci, ci, cac, fa, gps >>
 
 cr_got(self) == /\ pc[self] = "cr_got"
                 /\ ec' = [ec EXCEPT ![self] = gd[self]]
@@ -1077,7 +1161,8 @@ cr_got(self) == /\ pc[self] = "cr_got"
                                 slot, rnest, cs, ncs, cnt, snap, queued, fin, 
                                 bsnap, alive, uaf, errs, pci, opx, iv, pa, hd, 
                                 tl, old, cur, nx, cbc, isrt, wc, res, gd, fc, 
-                                dc, newc, cidef, cifl, cn, bk, regs, kk, gps >>
+                                dc, newc, cidef, cifl, cn, bk, regs, kk, sci, 
+                                ci, cac, fa, gps >>
 
 cr_enq(self) == /\ pc[self] = "cr_enq"
                 /\ en' = [en EXCEPT ![self] = cn[self]]
@@ -1092,7 +1177,7 @@ cr_enq(self) == /\ pc[self] = "cr_enq"
                                 bsnap, alive, uaf, errs, pci, opx, iv, pa, hd, 
                                 tl, old, cur, nx, cbc, isrt, ec, wc, res, gd, 
                                 fc, dc, newc, cidef, cifl, cn, bk, regs, kk, 
-                                gps >>
+                                sci, ci, cac, fa, gps >>
 
 cr_unl(self) == /\ pc[self] = "cr_unl"
                 /\ IF "norlock" \notin Mut
@@ -1112,7 +1197,7 @@ cr_unl(self) == /\ pc[self] = "cr_unl"
                                 alive, uaf, errs, pci, opx, iv, pa, hd, tl, 
                                 old, cur, nx, cbc, isrt, en, ec, wc, res, gd, 
                                 fc, dc, newc, cidef, cifl, cn, bk, regs, kk, 
-                                gps >>
+                                sci, ci, cac, fa, gps >>
 
 call_rcu(self) == cr_lock(self) \/ cr_len(self) \/ cr_pc(self)
                      \/ cr_pcs(self) \/ cr_def(self) \/ cr_got(self)
@@ -1131,7 +1216,7 @@ sc_lock(self) == /\ pc[self] = "sc_lock"
                                  bsnap, alive, uaf, errs, pci, opx, iv, pa, hd, 
                                  tl, old, cur, nx, cbc, isrt, en, ec, wc, res, 
                                  gd, fc, dc, newc, cidef, cifl, cn, bk, regs, 
-                                 kk, gps, stack >>
+                                 kk, sci, ci, cac, fa, gps, stack >>
 
 sc_len(self) == /\ pc[self] = "sc_len"
                 /\ cpulen' = NCpu
@@ -1142,7 +1227,7 @@ sc_len(self) == /\ pc[self] = "sc_len"
                                 bsnap, alive, uaf, errs, pci, opx, iv, pa, hd, 
                                 tl, old, cur, nx, cbc, isrt, en, ec, wc, res, 
                                 gd, fc, dc, newc, cidef, cifl, cn, bk, regs, 
-                                kk, gps, stack >>
+                                kk, sci, ci, cac, fa, gps, stack >>
 
 sc_arr(self) == /\ pc[self] = "sc_arr"
                 /\ IF TSO
@@ -1159,11 +1244,11 @@ sc_arr(self) == /\ pc[self] = "sc_arr"
                                 rnest, cs, ncs, cnt, snap, queued, fin, bsnap, 
                                 alive, errs, pci, opx, iv, pa, hd, tl, old, 
                                 cur, nx, cbc, isrt, en, ec, wc, res, gd, fc, 
-                                dc, newc, cidef, cifl, cn, bk, regs, kk, gps, 
-                                stack >>
+                                dc, newc, cidef, cifl, cn, bk, regs, kk, sci, 
+                                ci, cac, fa, gps, stack >>
 
 sc_chk(self) == /\ pc[self] = "sc_chk"
-                /\ IF Rd(self, PSlot(opx[self].c)) # NULL /\ en[self] # NULL
+                /\ IF Rd(self, PSlot(sci[self])) # NULL /\ en[self] # NULL
                       THEN /\ res' = [res EXCEPT ![self] = "EEXIST"]
                            /\ pc' = [pc EXCEPT ![self] = "sc_unl"]
                       ELSE /\ pc' = [pc EXCEPT ![self] = "sc_st"]
@@ -1174,17 +1259,17 @@ sc_chk(self) == /\ pc[self] = "sc_chk"
                                 fin, bsnap, alive, uaf, errs, pci, opx, iv, pa, 
                                 hd, tl, old, cur, nx, cbc, isrt, en, ec, wc, 
                                 gd, fc, dc, newc, cidef, cifl, cn, bk, regs, 
-                                kk, gps, stack >>
+                                kk, sci, ci, cac, fa, gps, stack >>
 
 sc_st(self) == /\ pc[self] = "sc_st"
                /\ IF TSO
                      THEN /\ Len(sb[self]) < SBMax
-                          /\ sb' = [sb EXCEPT ![self] = Append(sb[self], <<(PSlot(opx[self].c)), (en[self])>>)]
+                          /\ sb' = [sb EXCEPT ![self] = Append(sb[self], <<(PSlot(sci[self])), (en[self])>>)]
                           /\ mem' = mem
-                     ELSE /\ mem' = [mem EXCEPT ![(PSlot(opx[self].c))] = en[self]]
+                     ELSE /\ mem' = [mem EXCEPT ![(PSlot(sci[self]))] = en[self]]
                           /\ sb' = sb
-               /\ uaf' = (uaf \/ Dead((PSlot(opx[self].c))))
-               /\ acc' = Ev(self, "st", (PSlot(opx[self].c)), (en[self]), "-", "-")
+               /\ uaf' = (uaf \/ Dead((PSlot(sci[self]))))
+               /\ acc' = Ev(self, "st", (PSlot(sci[self])), (en[self]), "-", "-")
                /\ res' = [res EXCEPT ![self] = "0"]
                /\ pc' = [pc EXCEPT ![self] = "sc_unl"]
                /\ UNCHANGED << lock, fsleep, wloc, spur, wkind, crlist, nhelp, 
@@ -1192,7 +1277,8 @@ sc_st(self) == /\ pc[self] = "sc_st"
                                cs, ncs, cnt, snap, queued, fin, bsnap, alive, 
                                errs, pci, opx, iv, pa, hd, tl, old, cur, nx, 
                                cbc, isrt, en, ec, wc, gd, fc, dc, newc, cidef, 
-                               cifl, cn, bk, regs, kk, gps, stack >>
+                               cifl, cn, bk, regs, kk, sci, ci, cac, fa, gps, 
+                               stack >>
 
 sc_unl(self) == /\ pc[self] = "sc_unl"
                 /\ Drained(self)
@@ -1206,7 +1292,7 @@ sc_unl(self) == /\ pc[self] = "sc_unl"
                                 bsnap, alive, uaf, errs, pci, opx, iv, pa, hd, 
                                 tl, old, cur, nx, cbc, isrt, en, ec, wc, res, 
                                 gd, fc, dc, newc, cidef, cifl, cn, bk, regs, 
-                                kk, gps >>
+                                kk, sci, ci, cac, fa, gps >>
 
 set_cpu(self) == sc_lock(self) \/ sc_len(self) \/ sc_arr(self)
                     \/ sc_chk(self) \/ sc_st(self) \/ sc_unl(self)
@@ -1223,7 +1309,7 @@ f_chk(self) == /\ pc[self] = "f_chk"
                                fin, bsnap, alive, uaf, errs, pci, opx, iv, pa, 
                                hd, tl, old, cur, nx, cbc, isrt, en, ec, wc, 
                                res, gd, fc, dc, newc, cidef, cifl, cn, bk, 
-                               regs, kk, gps >>
+                               regs, kk, sci, ci, cac, fa, gps >>
 
 f_ld(self) == /\ pc[self] = "f_ld"
               /\ uaf' = (uaf \/ Dead((FlagsOf(fc[self]))))
@@ -1236,7 +1322,8 @@ f_ld(self) == /\ pc[self] = "f_ld"
                               rnest, cs, ncs, cnt, snap, queued, fin, bsnap, 
                               alive, errs, pci, opx, iv, pa, hd, tl, old, cur, 
                               nx, cbc, isrt, en, ec, wc, res, gd, fc, dc, newc, 
-                              cidef, cifl, cn, bk, regs, kk, gps, stack >>
+                              cidef, cifl, cn, bk, regs, kk, sci, ci, cac, fa, 
+                              gps, stack >>
 
 f_or(self) == /\ pc[self] = "f_or"
               /\ Drained(self)
@@ -1253,7 +1340,8 @@ f_or(self) == /\ pc[self] = "f_or"
                               rnest, cs, ncs, cnt, snap, queued, fin, bsnap, 
                               alive, errs, pci, opx, iv, pa, hd, tl, old, cur, 
                               nx, cbc, isrt, en, ec, res, gd, fc, dc, newc, 
-                              cidef, cifl, cn, bk, regs, kk, gps >>
+                              cidef, cifl, cn, bk, regs, kk, sci, ci, cac, fa, 
+                              gps >>
 
 f_wait(self) == /\ pc[self] = "f_wait"
                 /\ uaf' = (uaf \/ Dead((FlagsOf(fc[self]))))
@@ -1267,7 +1355,7 @@ f_wait(self) == /\ pc[self] = "f_wait"
                                 fin, bsnap, alive, errs, pci, opx, iv, pa, hd, 
                                 tl, old, cur, nx, cbc, isrt, en, ec, wc, res, 
                                 gd, fc, dc, newc, cidef, cifl, cn, bk, regs, 
-                                kk, gps, stack >>
+                                kk, sci, ci, cac, fa, gps, stack >>
 
 f_lock(self) == /\ pc[self] = "f_lock"
                 /\ Drained(self) /\ lock = "free"
@@ -1280,7 +1368,7 @@ f_lock(self) == /\ pc[self] = "f_lock"
                                 bsnap, alive, uaf, errs, pci, opx, iv, pa, hd, 
                                 tl, old, cur, nx, cbc, isrt, en, ec, wc, res, 
                                 gd, fc, dc, newc, cidef, cifl, cn, bk, regs, 
-                                kk, gps, stack >>
+                                kk, sci, ci, cac, fa, gps, stack >>
 
 f_e1(self) == /\ pc[self] = "f_e1"
               /\ uaf' = (uaf \/ Dead((NextOf(Hd(fc[self])))))
@@ -1295,7 +1383,8 @@ f_e1(self) == /\ pc[self] = "f_e1"
                               rnest, cs, ncs, cnt, snap, queued, fin, bsnap, 
                               alive, errs, pci, opx, iv, pa, hd, tl, old, cur, 
                               nx, cbc, isrt, en, ec, wc, res, gd, fc, dc, newc, 
-                              cidef, cifl, cn, bk, regs, kk, gps, stack >>
+                              cidef, cifl, cn, bk, regs, kk, sci, ci, cac, fa, 
+                              gps, stack >>
 
 f_e2(self) == /\ pc[self] = "f_e2"
               /\ uaf' = (uaf \/ Dead((TailOf(fc[self]))))
@@ -1308,7 +1397,8 @@ f_e2(self) == /\ pc[self] = "f_e2"
                               rnest, cs, ncs, cnt, snap, queued, fin, bsnap, 
                               alive, errs, pci, opx, iv, pa, hd, tl, old, cur, 
                               nx, cbc, isrt, en, ec, wc, res, gd, fc, dc, newc, 
-                              cidef, cifl, cn, bk, regs, kk, gps, stack >>
+                              cidef, cifl, cn, bk, regs, kk, sci, ci, cac, fa, 
+                              gps, stack >>
 
 f_unl1(self) == /\ pc[self] = "f_unl1"
                 /\ Drained(self)
@@ -1324,7 +1414,7 @@ f_unl1(self) == /\ pc[self] = "f_unl1"
                                 bsnap, alive, uaf, errs, pci, opx, iv, pa, hd, 
                                 tl, old, cur, nx, cbc, isrt, en, ec, wc, res, 
                                 gd, fc, dc, newc, cidef, cifl, cn, bk, regs, 
-                                kk, gps >>
+                                kk, sci, ci, cac, fa, gps >>
 
 f_lock2(self) == /\ pc[self] = "f_lock2"
                  /\ Drained(self) /\ lock = "free"
@@ -1338,7 +1428,7 @@ f_lock2(self) == /\ pc[self] = "f_lock2"
                                  bsnap, alive, uaf, errs, pci, opx, iv, pa, hd, 
                                  tl, old, cur, nx, cbc, isrt, en, ec, wc, res, 
                                  gd, fc, newc, cidef, cifl, cn, bk, regs, kk, 
-                                 gps, stack >>
+                                 sci, ci, cac, fa, gps, stack >>
 
 fs_e1(self) == /\ pc[self] = "fs_e1"
                /\ uaf' = (uaf \/ Dead((NextOf(Hd(fc[self])))))
@@ -1352,7 +1442,7 @@ fs_e1(self) == /\ pc[self] = "fs_e1"
                                fin, bsnap, alive, errs, pci, opx, iv, pa, hd, 
                                tl, old, cur, nx, cbc, isrt, en, ec, wc, res, 
                                gd, fc, dc, newc, cidef, cifl, cn, bk, regs, kk, 
-                               gps, stack >>
+                               sci, ci, cac, fa, gps, stack >>
 
 fs_e2(self) == /\ pc[self] = "fs_e2"
                /\ uaf' = (uaf \/ Dead((TailOf(fc[self]))))
@@ -1366,7 +1456,7 @@ fs_e2(self) == /\ pc[self] = "fs_e2"
                                fin, bsnap, alive, errs, pci, opx, iv, pa, hd, 
                                tl, old, cur, nx, cbc, isrt, en, ec, wc, res, 
                                gd, fc, dc, newc, cidef, cifl, cn, bk, regs, kk, 
-                               gps, stack >>
+                               sci, ci, cac, fa, gps, stack >>
 
 fs_xh(self) == /\ pc[self] = "fs_xh"
                /\ Drained(self)
@@ -1382,7 +1472,8 @@ fs_xh(self) == /\ pc[self] = "fs_xh"
                                rnest, cs, ncs, cnt, snap, queued, fin, bsnap, 
                                alive, errs, pci, opx, iv, pa, tl, old, cur, nx, 
                                cbc, isrt, en, ec, wc, res, gd, fc, dc, newc, 
-                               cidef, cifl, cn, bk, regs, kk, gps, stack >>
+                               cidef, cifl, cn, bk, regs, kk, sci, ci, cac, fa, 
+                               gps, stack >>
 
 fs_lt(self) == /\ pc[self] = "fs_lt"
                /\ uaf' = (uaf \/ Dead((TailOf(fc[self]))))
@@ -1396,7 +1487,7 @@ fs_lt(self) == /\ pc[self] = "fs_lt"
                                fin, bsnap, alive, errs, pci, opx, iv, pa, hd, 
                                tl, old, cur, nx, cbc, isrt, en, ec, wc, res, 
                                gd, fc, dc, newc, cidef, cifl, cn, bk, regs, kk, 
-                               gps, stack >>
+                               sci, ci, cac, fa, gps, stack >>
 
 fs_mb(self) == /\ pc[self] = "fs_mb"
                /\ Drained(self)
@@ -1408,7 +1499,7 @@ fs_mb(self) == /\ pc[self] = "fs_mb"
                                fin, bsnap, alive, uaf, errs, pci, opx, iv, pa, 
                                hd, tl, old, cur, nx, cbc, isrt, en, ec, wc, 
                                res, gd, fc, dc, newc, cidef, cifl, cn, bk, 
-                               regs, kk, gps, stack >>
+                               regs, kk, sci, ci, cac, fa, gps, stack >>
 
 fs_xt(self) == /\ pc[self] = "fs_xt"
                /\ Drained(self)
@@ -1422,7 +1513,8 @@ fs_xt(self) == /\ pc[self] = "fs_xt"
                                rnest, cs, ncs, cnt, snap, queued, fin, bsnap, 
                                alive, errs, pci, opx, iv, pa, hd, old, cur, nx, 
                                cbc, isrt, en, ec, wc, res, gd, fc, dc, newc, 
-                               cidef, cifl, cn, bk, regs, kk, gps, stack >>
+                               cidef, cifl, cn, bk, regs, kk, sci, ci, cac, fa, 
+                               gps, stack >>
 
 fs_ax(self) == /\ pc[self] = "fs_ax"
                /\ Drained(self)
@@ -1436,7 +1528,8 @@ fs_ax(self) == /\ pc[self] = "fs_ax"
                                rnest, cs, ncs, cnt, snap, queued, fin, bsnap, 
                                alive, errs, pci, opx, iv, pa, hd, tl, cur, nx, 
                                cbc, isrt, en, ec, wc, res, gd, fc, dc, newc, 
-                               cidef, cifl, cn, bk, regs, kk, gps, stack >>
+                               cidef, cifl, cn, bk, regs, kk, sci, ci, cac, fa, 
+                               gps, stack >>
 
 fs_al(self) == /\ pc[self] = "fs_al"
                /\ IF TSO
@@ -1456,7 +1549,7 @@ fs_al(self) == /\ pc[self] = "fs_al"
                                cs, ncs, cnt, snap, queued, fin, bsnap, alive, 
                                errs, pci, opx, iv, pa, cur, nx, cbc, isrt, en, 
                                ec, wc, res, gd, fc, dc, newc, cidef, cifl, cn, 
-                               bk, regs, kk, gps, stack >>
+                               bk, regs, kk, sci, ci, cac, fa, gps, stack >>
 
 f_ldq(self) == /\ pc[self] = "f_ldq"
                /\ iv' = [iv EXCEPT ![self] = Rd(self, (QlenOf(fc[self])))]
@@ -1469,7 +1562,7 @@ f_ldq(self) == /\ pc[self] = "f_ldq"
                                fin, bsnap, alive, errs, pci, opx, pa, hd, tl, 
                                old, cur, nx, cbc, isrt, en, ec, wc, res, gd, 
                                fc, dc, newc, cidef, cifl, cn, bk, regs, kk, 
-                               gps, stack >>
+                               sci, ci, cac, fa, gps, stack >>
 
 f_add(self) == /\ pc[self] = "f_add"
                /\ Drained(self)
@@ -1487,7 +1580,7 @@ f_add(self) == /\ pc[self] = "f_add"
                                rnest, cs, ncs, cnt, snap, queued, fin, bsnap, 
                                alive, errs, pci, opx, pa, hd, tl, old, cur, nx, 
                                cbc, isrt, en, ec, res, gd, fc, dc, newc, cidef, 
-                               cifl, cn, bk, regs, kk, gps >>
+                               cifl, cn, bk, regs, kk, sci, ci, cac, fa, gps >>
 
 f_unl2(self) == /\ pc[self] = "f_unl2"
                 /\ crlist' = Without(crlist, fc[self])
@@ -1501,7 +1594,7 @@ f_unl2(self) == /\ pc[self] = "f_unl2"
                                 alive, uaf, errs, pci, opx, iv, pa, hd, tl, 
                                 old, cur, nx, cbc, isrt, en, ec, wc, res, gd, 
                                 fc, dc, newc, cidef, cifl, cn, bk, regs, kk, 
-                                gps, stack >>
+                                sci, ci, cac, fa, gps, stack >>
 
 f_join(self) == /\ pc[self] = "f_join"
                 /\ pc[HOf[fc[self]]] = "Done"
@@ -1513,7 +1606,7 @@ f_join(self) == /\ pc[self] = "f_join"
                                 fin, bsnap, alive, uaf, errs, pci, opx, iv, pa, 
                                 hd, tl, old, cur, nx, cbc, isrt, en, ec, wc, 
                                 res, gd, fc, dc, newc, cidef, cifl, cn, bk, 
-                                regs, kk, gps, stack >>
+                                regs, kk, sci, ci, cac, fa, gps, stack >>
 
 f_free(self) == /\ pc[self] = "f_free"
                 /\ IF alive[fc[self]] # "yes"
@@ -1529,7 +1622,8 @@ f_free(self) == /\ pc[self] = "f_free"
                                 slot, func, rnest, cs, ncs, cnt, snap, queued, 
                                 fin, bsnap, uaf, pci, opx, iv, pa, hd, tl, old, 
                                 cur, nx, cbc, isrt, en, ec, wc, res, gd, fc, 
-                                dc, newc, cidef, cifl, cn, bk, regs, kk, gps >>
+                                dc, newc, cidef, cifl, cn, bk, regs, kk, sci, 
+                                ci, cac, fa, gps >>
 
 data_free(self) == f_chk(self) \/ f_ld(self) \/ f_or(self) \/ f_wait(self)
                       \/ f_lock(self) \/ f_e1(self) \/ f_e2(self)
@@ -1538,6 +1632,342 @@ data_free(self) == f_chk(self) \/ f_ld(self) \/ f_or(self) \/ f_wait(self)
                       \/ fs_mb(self) \/ fs_xt(self) \/ fs_ax(self)
                       \/ fs_al(self) \/ f_ldq(self) \/ f_add(self)
                       \/ f_unl2(self) \/ f_join(self) \/ f_free(self)
+
+ca_lock(self) == /\ pc[self] = "ca_lock"
+                 /\ Drained(self) /\ lock = "free"
+                 /\ lock' = self
+                 /\ acc' = Ev(self, "lock", CM, "-", "-", "-")
+                 /\ IF cpulen # 0
+                       THEN /\ pc' = [pc EXCEPT ![self] = "ca_unl"]
+                       ELSE /\ pc' = [pc EXCEPT ![self] = "ca_len"]
+                 /\ UNCHANGED << mem, sb, fsleep, wloc, spur, wkind, crlist, 
+                                 nhelp, started, cpulen, tcrd, mycpu, slot, 
+                                 func, rnest, cs, ncs, cnt, snap, queued, fin, 
+                                 bsnap, alive, uaf, errs, pci, opx, iv, pa, hd, 
+                                 tl, old, cur, nx, cbc, isrt, en, ec, wc, res, 
+                                 gd, fc, dc, newc, cidef, cifl, cn, bk, regs, 
+                                 kk, sci, ci, cac, fa, gps, stack >>
+
+ca_len(self) == /\ pc[self] = "ca_len"
+                /\ cpulen' = NCpu
+                /\ pc' = [pc EXCEPT ![self] = "ca_arr"]
+                /\ UNCHANGED << mem, sb, lock, acc, fsleep, wloc, spur, wkind, 
+                                crlist, nhelp, started, tcrd, mycpu, slot, 
+                                func, rnest, cs, ncs, cnt, snap, queued, fin, 
+                                bsnap, alive, uaf, errs, pci, opx, iv, pa, hd, 
+                                tl, old, cur, nx, cbc, isrt, en, ec, wc, res, 
+                                gd, fc, dc, newc, cidef, cifl, cn, bk, regs, 
+                                kk, sci, ci, cac, fa, gps, stack >>
+
+ca_arr(self) == /\ pc[self] = "ca_arr"
+                /\ IF TSO
+                      THEN /\ Len(sb[self]) < SBMax
+                           /\ sb' = [sb EXCEPT ![self] = Append(sb[self], <<"pcpu", "ARR">>)]
+                           /\ mem' = mem
+                      ELSE /\ mem' = [mem EXCEPT !["pcpu"] = "ARR"]
+                           /\ sb' = sb
+                /\ uaf' = (uaf \/ Dead("pcpu"))
+                /\ acc' = Ev(self, "st", "pcpu", "ARR", "-", "-")
+                /\ pc' = [pc EXCEPT ![self] = "ca_unl"]
+                /\ UNCHANGED << lock, fsleep, wloc, spur, wkind, crlist, nhelp, 
+                                started, cpulen, tcrd, mycpu, slot, func, 
+                                rnest, cs, ncs, cnt, snap, queued, fin, bsnap, 
+                                alive, errs, pci, opx, iv, pa, hd, tl, old, 
+                                cur, nx, cbc, isrt, en, ec, wc, res, gd, fc, 
+                                dc, newc, cidef, cifl, cn, bk, regs, kk, sci, 
+                                ci, cac, fa, gps, stack >>
+
+ca_unl(self) == /\ pc[self] = "ca_unl"
+                /\ Drained(self)
+                /\ lock' = "free"
+                /\ acc' = Ev(self, "unlock", CM, "-", "-", "-")
+                /\ ci' = [ci EXCEPT ![self] = 0]
+                /\ pc' = [pc EXCEPT ![self] = "ca_top"]
+                /\ UNCHANGED << mem, sb, fsleep, wloc, spur, wkind, crlist, 
+                                nhelp, started, cpulen, tcrd, mycpu, slot, 
+                                func, rnest, cs, ncs, cnt, snap, queued, fin, 
+                                bsnap, alive, uaf, errs, pci, opx, iv, pa, hd, 
+                                tl, old, cur, nx, cbc, isrt, en, ec, wc, res, 
+                                gd, fc, dc, newc, cidef, cifl, cn, bk, regs, 
+                                kk, sci, cac, fa, gps, stack >>
+
+ca_top(self) == /\ pc[self] = "ca_top"
+                /\ IF ci[self] >= NCpu
+                      THEN /\ res' = [res EXCEPT ![self] = "0"]
+                           /\ pc' = [pc EXCEPT ![self] = Head(stack[self]).pc]
+                           /\ stack' = [stack EXCEPT ![self] = Tail(stack[self])]
+                      ELSE /\ pc' = [pc EXCEPT ![self] = "ca_lk"]
+                           /\ UNCHANGED << res, stack >>
+                /\ UNCHANGED << mem, sb, lock, acc, fsleep, wloc, spur, wkind, 
+                                crlist, nhelp, started, cpulen, tcrd, mycpu, 
+                                slot, func, rnest, cs, ncs, cnt, snap, queued, 
+                                fin, bsnap, alive, uaf, errs, pci, opx, iv, pa, 
+                                hd, tl, old, cur, nx, cbc, isrt, en, ec, wc, 
+                                gd, fc, dc, newc, cidef, cifl, cn, bk, regs, 
+                                kk, sci, ci, cac, fa, gps >>
+
+ca_lk(self) == /\ pc[self] = "ca_lk"
+               /\ Drained(self) /\ lock = "free"
+               /\ lock' = self
+               /\ acc' = Ev(self, "lock", CM, "-", "-", "-")
+               /\ pc' = [pc EXCEPT ![self] = "ca_g1"]
+               /\ UNCHANGED << mem, sb, fsleep, wloc, spur, wkind, crlist, 
+                               nhelp, started, cpulen, tcrd, mycpu, slot, func, 
+                               rnest, cs, ncs, cnt, snap, queued, fin, bsnap, 
+                               alive, uaf, errs, pci, opx, iv, pa, hd, tl, old, 
+                               cur, nx, cbc, isrt, en, ec, wc, res, gd, fc, dc, 
+                               newc, cidef, cifl, cn, bk, regs, kk, sci, ci, 
+                               cac, fa, gps, stack >>
+
+ca_g1(self) == /\ pc[self] = "ca_g1"
+               /\ uaf' = (uaf \/ Dead("pcpu"))
+               /\ acc' = Ev(self, "ld", "pcpu", "-", "-", Rd(self, "pcpu"))
+               /\ pc' = [pc EXCEPT ![self] = "ca_g2"]
+               /\ UNCHANGED << mem, sb, lock, fsleep, wloc, spur, wkind, 
+                               crlist, nhelp, started, cpulen, tcrd, mycpu, 
+                               slot, func, rnest, cs, ncs, cnt, snap, queued, 
+                               fin, bsnap, alive, errs, pci, opx, iv, pa, hd, 
+                               tl, old, cur, nx, cbc, isrt, en, ec, wc, res, 
+                               gd, fc, dc, newc, cidef, cifl, cn, bk, regs, kk, 
+                               sci, ci, cac, fa, gps, stack >>
+
+ca_g2(self) == /\ pc[self] = "ca_g2"
+               /\ uaf' = (uaf \/ Dead((PSlot(ci[self]))))
+               /\ acc' = Ev(self, "ld", (PSlot(ci[self])), "-", "-", Rd(self, (PSlot(ci[self]))))
+               /\ IF Rd(self, PSlot(ci[self])) # NULL
+                     THEN /\ pc' = [pc EXCEPT ![self] = "ca_skip"]
+                          /\ UNCHANGED << cidef, cifl, stack >>
+                     ELSE /\ cidef' = [cidef EXCEPT ![self] = FALSE]
+                          /\ cifl' = [cifl EXCEPT ![self] = opx[self].f]
+                          /\ stack' = [stack EXCEPT ![self] = << [ procedure |->  "data_init",
+                                                                   pc        |->  "ca_cu" ] >>
+                                                               \o stack[self]]
+                          /\ pc' = [pc EXCEPT ![self] = "ci_new"]
+               /\ UNCHANGED << mem, sb, lock, fsleep, wloc, spur, wkind, 
+                               crlist, nhelp, started, cpulen, tcrd, mycpu, 
+                               slot, func, rnest, cs, ncs, cnt, snap, queued, 
+                               fin, bsnap, alive, errs, pci, opx, iv, pa, hd, 
+                               tl, old, cur, nx, cbc, isrt, en, ec, wc, res, 
+                               gd, fc, dc, newc, cn, bk, regs, kk, sci, ci, 
+                               cac, fa, gps >>
+
+ca_cu(self) == /\ pc[self] = "ca_cu"
+               /\ Drained(self)
+               /\ lock' = "free"
+               /\ acc' = Ev(self, "unlock", CM, "-", "-", "-")
+               /\ cac' = [cac EXCEPT ![self] = newc[self]]
+               /\ en' = [en EXCEPT ![self] = newc[self]]
+               /\ sci' = [sci EXCEPT ![self] = ci[self]]
+               /\ stack' = [stack EXCEPT ![self] = << [ procedure |->  "set_cpu",
+                                                        pc        |->  "ca_chk" ] >>
+                                                    \o stack[self]]
+               /\ pc' = [pc EXCEPT ![self] = "sc_lock"]
+               /\ UNCHANGED << mem, sb, fsleep, wloc, spur, wkind, crlist, 
+                               nhelp, started, cpulen, tcrd, mycpu, slot, func, 
+                               rnest, cs, ncs, cnt, snap, queued, fin, bsnap, 
+                               alive, uaf, errs, pci, opx, iv, pa, hd, tl, old, 
+                               cur, nx, cbc, isrt, ec, wc, res, gd, fc, dc, 
+                               newc, cidef, cifl, cn, bk, regs, kk, ci, fa, 
+                               gps >>
+
+ca_chk(self) == /\ pc[self] = "ca_chk"
+                /\ IF res[self] = "EEXIST"
+                      THEN /\ fc' = [fc EXCEPT ![self] = cac[self]]
+                           /\ stack' = [stack EXCEPT ![self] = << [ procedure |->  "data_free",
+                                                                    pc        |->  "ca_nx" ] >>
+                                                                \o stack[self]]
+                           /\ pc' = [pc EXCEPT ![self] = "f_chk"]
+                      ELSE /\ pc' = [pc EXCEPT ![self] = "ca_nx"]
+                           /\ UNCHANGED << fc, stack >>
+                /\ UNCHANGED << mem, sb, lock, acc, fsleep, wloc, spur, wkind, 
+                                crlist, nhelp, started, cpulen, tcrd, mycpu, 
+                                slot, func, rnest, cs, ncs, cnt, snap, queued, 
+                                fin, bsnap, alive, uaf, errs, pci, opx, iv, pa, 
+                                hd, tl, old, cur, nx, cbc, isrt, en, ec, wc, 
+                                res, gd, dc, newc, cidef, cifl, cn, bk, regs, 
+                                kk, sci, ci, cac, fa, gps >>
+
+ca_nx(self) == /\ pc[self] = "ca_nx"
+               /\ ci' = [ci EXCEPT ![self] = ci[self] + 1]
+               /\ cac' = [cac EXCEPT ![self] = NULL]
+               /\ pc' = [pc EXCEPT ![self] = "ca_top"]
+               /\ UNCHANGED << mem, sb, lock, acc, fsleep, wloc, spur, wkind, 
+                               crlist, nhelp, started, cpulen, tcrd, mycpu, 
+                               slot, func, rnest, cs, ncs, cnt, snap, queued, 
+                               fin, bsnap, alive, uaf, errs, pci, opx, iv, pa, 
+                               hd, tl, old, cur, nx, cbc, isrt, en, ec, wc, 
+                               res, gd, fc, dc, newc, cidef, cifl, cn, bk, 
+                               regs, kk, sci, fa, gps, stack >>
+
+ca_skip(self) == /\ pc[self] = "ca_skip"
+                 /\ Drained(self)
+                 /\ lock' = "free"
+                 /\ acc' = Ev(self, "unlock", CM, "-", "-", "-")
+                 /\ ci' = [ci EXCEPT ![self] = ci[self] + 1]
+                 /\ pc' = [pc EXCEPT ![self] = "ca_top"]
+                 /\ UNCHANGED << mem, sb, fsleep, wloc, spur, wkind, crlist, 
+                                 nhelp, started, cpulen, tcrd, mycpu, slot, 
+                                 func, rnest, cs, ncs, cnt, snap, queued, fin, 
+                                 bsnap, alive, uaf, errs, pci, opx, iv, pa, hd, 
+                                 tl, old, cur, nx, cbc, isrt, en, ec, wc, res, 
+                                 gd, fc, dc, newc, cidef, cifl, cn, bk, regs, 
+                                 kk, sci, cac, fa, gps, stack >>
+
+create_all(self) == ca_lock(self) \/ ca_len(self) \/ ca_arr(self)
+                       \/ ca_unl(self) \/ ca_top(self) \/ ca_lk(self)
+                       \/ ca_g1(self) \/ ca_g2(self) \/ ca_cu(self)
+                       \/ ca_chk(self) \/ ca_nx(self) \/ ca_skip(self)
+
+fa_len(self) == /\ pc[self] = "fa_len"
+                /\ IF cpulen = 0
+                      THEN /\ res' = [res EXCEPT ![self] = "-"]
+                           /\ pc' = [pc EXCEPT ![self] = Head(stack[self]).pc]
+                           /\ stack' = [stack EXCEPT ![self] = Tail(stack[self])]
+                           /\ ci' = ci
+                      ELSE /\ ci' = [ci EXCEPT ![self] = 0]
+                           /\ pc' = [pc EXCEPT ![self] = "fa_top"]
+                           /\ UNCHANGED << res, stack >>
+                /\ UNCHANGED << mem, sb, lock, acc, fsleep, wloc, spur, wkind, 
+                                crlist, nhelp, started, cpulen, tcrd, mycpu, 
+                                slot, func, rnest, cs, ncs, cnt, snap, queued, 
+                                fin, bsnap, alive, uaf, errs, pci, opx, iv, pa, 
+                                hd, tl, old, cur, nx, cbc, isrt, en, ec, wc, 
+                                gd, fc, dc, newc, cidef, cifl, cn, bk, regs, 
+                                kk, sci, cac, fa, gps >>
+
+fa_top(self) == /\ pc[self] = "fa_top"
+                /\ IF ci[self] >= NCpu
+                      THEN /\ pc' = [pc EXCEPT ![self] = "fa_sync"]
+                      ELSE /\ pc' = [pc EXCEPT ![self] = "fa_g1"]
+                /\ UNCHANGED << mem, sb, lock, acc, fsleep, wloc, spur, wkind, 
+                                crlist, nhelp, started, cpulen, tcrd, mycpu, 
+                                slot, func, rnest, cs, ncs, cnt, snap, queued, 
+                                fin, bsnap, alive, uaf, errs, pci, opx, iv, pa, 
+                                hd, tl, old, cur, nx, cbc, isrt, en, ec, wc, 
+                                res, gd, fc, dc, newc, cidef, cifl, cn, bk, 
+                                regs, kk, sci, ci, cac, fa, gps, stack >>
+
+fa_g1(self) == /\ pc[self] = "fa_g1"
+               /\ uaf' = (uaf \/ Dead("pcpu"))
+               /\ acc' = Ev(self, "ld", "pcpu", "-", "-", Rd(self, "pcpu"))
+               /\ IF Rd(self, "pcpu") = NULL
+                     THEN /\ pc' = [pc EXCEPT ![self] = "fa_nx"]
+                     ELSE /\ pc' = [pc EXCEPT ![self] = "fa_g2"]
+               /\ UNCHANGED << mem, sb, lock, fsleep, wloc, spur, wkind, 
+                               crlist, nhelp, started, cpulen, tcrd, mycpu, 
+                               slot, func, rnest, cs, ncs, cnt, snap, queued, 
+                               fin, bsnap, alive, errs, pci, opx, iv, pa, hd, 
+                               tl, old, cur, nx, cbc, isrt, en, ec, wc, res, 
+                               gd, fc, dc, newc, cidef, cifl, cn, bk, regs, kk, 
+                               sci, ci, cac, fa, gps, stack >>
+
+fa_g2(self) == /\ pc[self] = "fa_g2"
+               /\ uaf' = (uaf \/ Dead((PSlot(ci[self]))))
+               /\ acc' = Ev(self, "ld", (PSlot(ci[self])), "-", "-", Rd(self, (PSlot(ci[self]))))
+               /\ fa' = [fa EXCEPT ![self][ci[self]] = Rd(self, PSlot(ci[self]))]
+               /\ IF Rd(self, PSlot(ci[self])) = NULL
+                     THEN /\ pc' = [pc EXCEPT ![self] = "fa_nx"]
+                          /\ UNCHANGED << en, sci, stack >>
+                     ELSE /\ en' = [en EXCEPT ![self] = NULL]
+                          /\ sci' = [sci EXCEPT ![self] = ci[self]]
+                          /\ stack' = [stack EXCEPT ![self] = << [ procedure |->  "set_cpu",
+                                                                   pc        |->  "fa_nx" ] >>
+                                                               \o stack[self]]
+                          /\ pc' = [pc EXCEPT ![self] = "sc_lock"]
+               /\ UNCHANGED << mem, sb, lock, fsleep, wloc, spur, wkind, 
+                               crlist, nhelp, started, cpulen, tcrd, mycpu, 
+                               slot, func, rnest, cs, ncs, cnt, snap, queued, 
+                               fin, bsnap, alive, errs, pci, opx, iv, pa, hd, 
+                               tl, old, cur, nx, cbc, isrt, ec, wc, res, gd, 
+                               fc, dc, newc, cidef, cifl, cn, bk, regs, kk, ci, 
+                               cac, gps >>
+
+fa_nx(self) == /\ pc[self] = "fa_nx"
+               /\ ci' = [ci EXCEPT ![self] = ci[self] + 1]
+               /\ pc' = [pc EXCEPT ![self] = "fa_top"]
+               /\ UNCHANGED << mem, sb, lock, acc, fsleep, wloc, spur, wkind, 
+                               crlist, nhelp, started, cpulen, tcrd, mycpu, 
+                               slot, func, rnest, cs, ncs, cnt, snap, queued, 
+                               fin, bsnap, alive, uaf, errs, pci, opx, iv, pa, 
+                               hd, tl, old, cur, nx, cbc, isrt, en, ec, wc, 
+                               res, gd, fc, dc, newc, cidef, cifl, cn, bk, 
+                               regs, kk, sci, cac, fa, gps, stack >>
+
+fa_sync(self) == /\ pc[self] = "fa_sync"
+                 /\ IF "nofasync" \notin Mut
+                       THEN /\ stack' = [stack EXCEPT ![self] = << [ procedure |->  "synchronize_rcu",
+                                                                     pc        |->  "fa_f0" ] >>
+                                                                 \o stack[self]]
+                            /\ pc' = [pc EXCEPT ![self] = "gp_b"]
+                       ELSE /\ pc' = [pc EXCEPT ![self] = "fa_f0"]
+                            /\ stack' = stack
+                 /\ UNCHANGED << mem, sb, lock, acc, fsleep, wloc, spur, wkind, 
+                                 crlist, nhelp, started, cpulen, tcrd, mycpu, 
+                                 slot, func, rnest, cs, ncs, cnt, snap, queued, 
+                                 fin, bsnap, alive, uaf, errs, pci, opx, iv, 
+                                 pa, hd, tl, old, cur, nx, cbc, isrt, en, ec, 
+                                 wc, res, gd, fc, dc, newc, cidef, cifl, cn, 
+                                 bk, regs, kk, sci, ci, cac, fa, gps >>
+
+fa_f0(self) == /\ pc[self] = "fa_f0"
+               /\ ci' = [ci EXCEPT ![self] = 0]
+               /\ pc' = [pc EXCEPT ![self] = "fa_ftop"]
+               /\ UNCHANGED << mem, sb, lock, acc, fsleep, wloc, spur, wkind, 
+                               crlist, nhelp, started, cpulen, tcrd, mycpu, 
+                               slot, func, rnest, cs, ncs, cnt, snap, queued, 
+                               fin, bsnap, alive, uaf, errs, pci, opx, iv, pa, 
+                               hd, tl, old, cur, nx, cbc, isrt, en, ec, wc, 
+                               res, gd, fc, dc, newc, cidef, cifl, cn, bk, 
+                               regs, kk, sci, cac, fa, gps, stack >>
+
+fa_ftop(self) == /\ pc[self] = "fa_ftop"
+                 /\ IF ci[self] >= NCpu
+                       THEN /\ res' = [res EXCEPT ![self] = "-"]
+                            /\ fa' = [fa EXCEPT ![self] = [i \in 0..(NCpu - 1) |-> NULL]]
+                            /\ pc' = [pc EXCEPT ![self] = Head(stack[self]).pc]
+                            /\ stack' = [stack EXCEPT ![self] = Tail(stack[self])]
+                       ELSE /\ pc' = [pc EXCEPT ![self] = "fa_fchk"]
+                            /\ UNCHANGED << res, fa, stack >>
+                 /\ UNCHANGED << mem, sb, lock, acc, fsleep, wloc, spur, wkind, 
+                                 crlist, nhelp, started, cpulen, tcrd, mycpu, 
+                                 slot, func, rnest, cs, ncs, cnt, snap, queued, 
+                                 fin, bsnap, alive, uaf, errs, pci, opx, iv, 
+                                 pa, hd, tl, old, cur, nx, cbc, isrt, en, ec, 
+                                 wc, gd, fc, dc, newc, cidef, cifl, cn, bk, 
+                                 regs, kk, sci, ci, cac, gps >>
+
+fa_fchk(self) == /\ pc[self] = "fa_fchk"
+                 /\ IF fa[self][ci[self]] = NULL
+                       THEN /\ pc' = [pc EXCEPT ![self] = "fa_fnx"]
+                            /\ UNCHANGED << fc, stack >>
+                       ELSE /\ fc' = [fc EXCEPT ![self] = fa[self][ci[self]]]
+                            /\ stack' = [stack EXCEPT ![self] = << [ procedure |->  "data_free",
+                                                                     pc        |->  "fa_fnx" ] >>
+                                                                 \o stack[self]]
+                            /\ pc' = [pc EXCEPT ![self] = "f_chk"]
+                 /\ UNCHANGED << mem, sb, lock, acc, fsleep, wloc, spur, wkind, 
+                                 crlist, nhelp, started, cpulen, tcrd, mycpu, 
+                                 slot, func, rnest, cs, ncs, cnt, snap, queued, 
+                                 fin, bsnap, alive, uaf, errs, pci, opx, iv, 
+                                 pa, hd, tl, old, cur, nx, cbc, isrt, en, ec, 
+                                 wc, res, gd, dc, newc, cidef, cifl, cn, bk, 
+                                 regs, kk, sci, ci, cac, fa, gps >>
+
+fa_fnx(self) == /\ pc[self] = "fa_fnx"
+                /\ ci' = [ci EXCEPT ![self] = ci[self] + 1]
+                /\ pc' = [pc EXCEPT ![self] = "fa_ftop"]
+                /\ UNCHANGED << mem, sb, lock, acc, fsleep, wloc, spur, wkind, 
+                                crlist, nhelp, started, cpulen, tcrd, mycpu, 
+                                slot, func, rnest, cs, ncs, cnt, snap, queued, 
+                                fin, bsnap, alive, uaf, errs, pci, opx, iv, pa, 
+                                hd, tl, old, cur, nx, cbc, isrt, en, ec, wc, 
+                                res, gd, fc, dc, newc, cidef, cifl, cn, bk, 
+                                regs, kk, sci, cac, fa, gps, stack >>
+
+free_all(self) == fa_len(self) \/ fa_top(self) \/ fa_g1(self)
+                     \/ fa_g2(self) \/ fa_nx(self) \/ fa_sync(self)
+                     \/ fa_f0(self) \/ fa_ftop(self) \/ fa_fchk(self)
+                     \/ fa_fnx(self)
 
 bc_sub(self) == /\ pc[self] = "bc_sub"
                 /\ Drained(self)
@@ -1553,7 +1983,7 @@ bc_sub(self) == /\ pc[self] = "bc_sub"
                                 bsnap, alive, errs, pci, opx, iv, pa, hd, tl, 
                                 old, cur, nx, cbc, isrt, en, ec, wc, res, gd, 
                                 fc, dc, newc, cidef, cifl, cn, bk, regs, kk, 
-                                gps, stack >>
+                                sci, ci, cac, fa, gps, stack >>
 
 bc_mb(self) == /\ pc[self] = "bc_mb"
                /\ Drained(self)
@@ -1565,7 +1995,7 @@ bc_mb(self) == /\ pc[self] = "bc_mb"
                                fin, bsnap, alive, uaf, errs, pci, opx, iv, pa, 
                                hd, tl, old, cur, nx, cbc, isrt, en, ec, wc, 
                                res, gd, fc, dc, newc, cidef, cifl, cn, bk, 
-                               regs, kk, gps, stack >>
+                               regs, kk, sci, ci, cac, fa, gps, stack >>
 
 bc_ld(self) == /\ pc[self] = "bc_ld"
                /\ uaf' = (uaf \/ Dead((FutexOf(bk[self]))))
@@ -1579,7 +2009,7 @@ bc_ld(self) == /\ pc[self] = "bc_ld"
                                fin, bsnap, alive, errs, pci, opx, iv, pa, hd, 
                                tl, old, cur, nx, cbc, isrt, en, ec, wc, res, 
                                gd, fc, dc, newc, cidef, cifl, cn, bk, regs, kk, 
-                               gps, stack >>
+                               sci, ci, cac, fa, gps, stack >>
 
 bc_st(self) == /\ pc[self] = "bc_st"
                /\ IF TSO
@@ -1596,7 +2026,8 @@ bc_st(self) == /\ pc[self] = "bc_st"
                                cs, ncs, cnt, snap, queued, fin, bsnap, alive, 
                                errs, pci, opx, iv, pa, hd, tl, old, cur, nx, 
                                cbc, isrt, en, ec, wc, res, gd, fc, dc, newc, 
-                               cidef, cifl, cn, bk, regs, kk, gps, stack >>
+                               cidef, cifl, cn, bk, regs, kk, sci, ci, cac, fa, 
+                               gps, stack >>
 
 bc_fw(self) == /\ pc[self] = "bc_fw"
                /\ Drained(self)
@@ -1609,7 +2040,8 @@ bc_fw(self) == /\ pc[self] = "bc_fw"
                                cs, ncs, cnt, snap, queued, fin, bsnap, alive, 
                                errs, pci, opx, iv, pa, hd, tl, old, cur, nx, 
                                cbc, isrt, en, ec, wc, res, gd, fc, dc, newc, 
-                               cidef, cifl, cn, bk, regs, kk, gps, stack >>
+                               cidef, cifl, cn, bk, regs, kk, sci, ci, cac, fa, 
+                               gps, stack >>
 
 bc_put(self) == /\ pc[self] = "bc_put"
                 /\ Drained(self)
@@ -1625,7 +2057,7 @@ bc_put(self) == /\ pc[self] = "bc_put"
                                 bsnap, alive, errs, pci, opx, iv, pa, hd, tl, 
                                 old, cur, nx, cbc, isrt, en, ec, wc, res, gd, 
                                 fc, dc, newc, cidef, cifl, cn, bk, regs, kk, 
-                                gps, stack >>
+                                sci, ci, cac, fa, gps, stack >>
 
 bc_frk(self) == /\ pc[self] = "bc_frk"
                 /\ IF alive[bk[self]] # "yes"
@@ -1640,8 +2072,8 @@ bc_frk(self) == /\ pc[self] = "bc_frk"
                                 slot, func, rnest, cs, ncs, cnt, snap, queued, 
                                 fin, bsnap, uaf, pci, opx, iv, pa, hd, tl, old, 
                                 cur, nx, cbc, isrt, en, ec, wc, res, gd, fc, 
-                                dc, newc, cidef, cifl, cn, bk, regs, kk, gps, 
-                                stack >>
+                                dc, newc, cidef, cifl, cn, bk, regs, kk, sci, 
+                                ci, cac, fa, gps, stack >>
 
 bc_frw(self) == /\ pc[self] = "bc_frw"
                 /\ alive' = [alive EXCEPT ![cur[self]] = "freed"]
@@ -1654,7 +2086,7 @@ bc_frw(self) == /\ pc[self] = "bc_frw"
                                 fin, bsnap, uaf, errs, pci, opx, iv, pa, hd, 
                                 tl, old, cur, nx, cbc, isrt, en, ec, wc, res, 
                                 gd, fc, dc, newc, cidef, cifl, cn, bk, regs, 
-                                kk, gps >>
+                                kk, sci, ci, cac, fa, gps >>
 
 barrier_complete(self) == bc_sub(self) \/ bc_mb(self) \/ bc_ld(self)
                              \/ bc_st(self) \/ bc_fw(self) \/ bc_put(self)
@@ -1675,8 +2107,8 @@ b_lock(self) == /\ pc[self] = "b_lock"
                                 func, rnest, cs, ncs, cnt, snap, queued, fin, 
                                 bsnap, alive, uaf, errs, pci, opx, iv, pa, hd, 
                                 tl, old, cur, nx, cbc, isrt, en, ec, wc, res, 
-                                gd, fc, dc, newc, cidef, cifl, cn, bk, gps, 
-                                stack >>
+                                gd, fc, dc, newc, cidef, cifl, cn, bk, sci, ci, 
+                                cac, fa, gps, stack >>
 
 b_ref(self) == /\ pc[self] = "b_ref"
                /\ IF TSO
@@ -1693,7 +2125,8 @@ b_ref(self) == /\ pc[self] = "b_ref"
                                cs, ncs, cnt, snap, queued, fin, bsnap, alive, 
                                errs, pci, opx, iv, pa, hd, tl, old, cur, nx, 
                                cbc, isrt, en, ec, wc, res, gd, fc, dc, newc, 
-                               cidef, cifl, cn, bk, regs, kk, gps, stack >>
+                               cidef, cifl, cn, bk, regs, kk, sci, ci, cac, fa, 
+                               gps, stack >>
 
 b_cnt(self) == /\ pc[self] = "b_cnt"
                /\ IF TSO /\ ~Tracing
@@ -1710,7 +2143,8 @@ b_cnt(self) == /\ pc[self] = "b_cnt"
                                rnest, cs, ncs, cnt, snap, queued, fin, bsnap, 
                                alive, errs, pci, opx, iv, pa, hd, tl, old, cur, 
                                nx, cbc, isrt, en, ec, wc, res, gd, fc, dc, 
-                               newc, cidef, cifl, cn, bk, regs, kk, gps, stack >>
+                               newc, cidef, cifl, cn, bk, regs, kk, sci, ci, 
+                               cac, fa, gps, stack >>
 
 b_loop(self) == /\ pc[self] = "b_loop"
                 /\ IF kk[self] <= Len(regs[self])
@@ -1730,7 +2164,8 @@ b_loop(self) == /\ pc[self] = "b_loop"
                                 slot, rnest, cs, ncs, cnt, snap, queued, fin, 
                                 bsnap, uaf, errs, pci, opx, iv, pa, hd, tl, 
                                 old, cur, nx, cbc, isrt, wc, res, gd, fc, dc, 
-                                newc, cidef, cifl, cn, bk, regs, gps >>
+                                newc, cidef, cifl, cn, bk, regs, sci, ci, cac, 
+                                fa, gps >>
 
 b_unl(self) == /\ pc[self] = "b_unl"
                /\ IF "nomutex" \notin Mut
@@ -1745,7 +2180,8 @@ b_unl(self) == /\ pc[self] = "b_unl"
                                rnest, cs, ncs, cnt, snap, queued, fin, bsnap, 
                                alive, uaf, errs, pci, opx, iv, pa, hd, tl, old, 
                                cur, nx, cbc, isrt, en, ec, wc, res, gd, fc, dc, 
-                               newc, cidef, cifl, cn, bk, regs, kk, gps, stack >>
+                               newc, cidef, cifl, cn, bk, regs, kk, sci, ci, 
+                               cac, fa, gps, stack >>
 
 b_dec(self) == /\ pc[self] = "b_dec"
                /\ Drained(self)
@@ -1758,7 +2194,8 @@ b_dec(self) == /\ pc[self] = "b_dec"
                                rnest, cs, ncs, cnt, snap, queued, fin, bsnap, 
                                alive, errs, pci, opx, iv, pa, hd, tl, old, cur, 
                                nx, cbc, isrt, en, ec, wc, res, gd, fc, dc, 
-                               newc, cidef, cifl, cn, bk, regs, kk, gps, stack >>
+                               newc, cidef, cifl, cn, bk, regs, kk, sci, ci, 
+                               cac, fa, gps, stack >>
 
 b_mb(self) == /\ pc[self] = "b_mb"
               /\ Drained(self)
@@ -1769,7 +2206,8 @@ b_mb(self) == /\ pc[self] = "b_mb"
                               rnest, cs, ncs, cnt, snap, queued, fin, bsnap, 
                               alive, uaf, errs, pci, opx, iv, pa, hd, tl, old, 
                               cur, nx, cbc, isrt, en, ec, wc, res, gd, fc, dc, 
-                              newc, cidef, cifl, cn, bk, regs, kk, gps, stack >>
+                              newc, cidef, cifl, cn, bk, regs, kk, sci, ci, 
+                              cac, fa, gps, stack >>
 
 b_ldc(self) == /\ pc[self] = "b_ldc"
                /\ uaf' = (uaf \/ Dead((CountOf(bk[self]))))
@@ -1783,7 +2221,7 @@ b_ldc(self) == /\ pc[self] = "b_ldc"
                                fin, bsnap, alive, errs, pci, opx, iv, pa, hd, 
                                tl, old, cur, nx, cbc, isrt, en, ec, wc, res, 
                                gd, fc, dc, newc, cidef, cifl, cn, bk, regs, kk, 
-                               gps, stack >>
+                               sci, ci, cac, fa, gps, stack >>
 
 cw_mb(self) == /\ pc[self] = "cw_mb"
                /\ Drained(self)
@@ -1795,7 +2233,7 @@ cw_mb(self) == /\ pc[self] = "cw_mb"
                                fin, bsnap, alive, uaf, errs, pci, opx, iv, pa, 
                                hd, tl, old, cur, nx, cbc, isrt, en, ec, wc, 
                                res, gd, fc, dc, newc, cidef, cifl, cn, bk, 
-                               regs, kk, gps, stack >>
+                               regs, kk, sci, ci, cac, fa, gps, stack >>
 
 cw_ld(self) == /\ pc[self] = "cw_ld"
                /\ uaf' = (uaf \/ Dead((FutexOf(bk[self]))))
@@ -1809,7 +2247,7 @@ cw_ld(self) == /\ pc[self] = "cw_ld"
                                fin, bsnap, alive, errs, pci, opx, iv, pa, hd, 
                                tl, old, cur, nx, cbc, isrt, en, ec, wc, res, 
                                gd, fc, dc, newc, cidef, cifl, cn, bk, regs, kk, 
-                               gps, stack >>
+                               sci, ci, cac, fa, gps, stack >>
 
 cw_fwait(self) == /\ pc[self] = "cw_fwait"
                   /\ Drained(self)
@@ -1828,7 +2266,7 @@ cw_fwait(self) == /\ pc[self] = "cw_fwait"
                                   bsnap, alive, errs, pci, opx, iv, pa, hd, tl, 
                                   old, cur, nx, cbc, isrt, en, ec, wc, res, gd, 
                                   fc, dc, newc, cidef, cifl, cn, bk, regs, kk, 
-                                  gps, stack >>
+                                  sci, ci, cac, fa, gps, stack >>
 
 cw_fwoke(self) == /\ pc[self] = "cw_fwoke"
                   /\ self \notin fsleep
@@ -1841,7 +2279,7 @@ cw_fwoke(self) == /\ pc[self] = "cw_fwoke"
                                   bsnap, alive, uaf, errs, pci, opx, iv, pa, 
                                   hd, tl, old, cur, nx, cbc, isrt, en, ec, wc, 
                                   res, gd, fc, dc, newc, cidef, cifl, cn, bk, 
-                                  regs, kk, gps, stack >>
+                                  regs, kk, sci, ci, cac, fa, gps, stack >>
 
 b_put(self) == /\ pc[self] = "b_put"
                /\ Drained(self)
@@ -1858,7 +2296,8 @@ b_put(self) == /\ pc[self] = "b_put"
                                rnest, cs, ncs, cnt, snap, queued, fin, bsnap, 
                                alive, errs, pci, opx, iv, pa, hd, tl, old, cur, 
                                nx, cbc, isrt, en, ec, wc, res, gd, fc, dc, 
-                               newc, cidef, cifl, cn, bk, regs, kk, gps >>
+                               newc, cidef, cifl, cn, bk, regs, kk, sci, ci, 
+                               cac, fa, gps >>
 
 b_free(self) == /\ pc[self] = "b_free"
                 /\ IF alive[bk[self]] # "yes"
@@ -1874,7 +2313,8 @@ b_free(self) == /\ pc[self] = "b_free"
                                 slot, func, rnest, cs, ncs, cnt, snap, queued, 
                                 fin, bsnap, uaf, pci, opx, iv, pa, hd, tl, old, 
                                 cur, nx, cbc, isrt, en, ec, wc, res, gd, fc, 
-                                dc, newc, cidef, cifl, cn, bk, regs, kk, gps >>
+                                dc, newc, cidef, cifl, cn, bk, regs, kk, sci, 
+                                ci, cac, fa, gps >>
 
 barrier(self) == b_lock(self) \/ b_ref(self) \/ b_cnt(self) \/ b_loop(self)
                     \/ b_unl(self) \/ b_dec(self) \/ b_mb(self)
@@ -1894,8 +2334,8 @@ bf_lock(self) == /\ pc[self] = "bf_lock"
                                  func, rnest, cs, ncs, cnt, snap, queued, fin, 
                                  bsnap, alive, uaf, errs, pci, opx, iv, pa, hd, 
                                  tl, old, cur, nx, cbc, isrt, en, ec, wc, res, 
-                                 gd, fc, dc, newc, cidef, cifl, cn, bk, gps, 
-                                 stack >>
+                                 gd, fc, dc, newc, cidef, cifl, cn, bk, sci, 
+                                 ci, cac, fa, gps, stack >>
 
 bf_or(self) == /\ pc[self] = "bf_or"
                /\ IF kk[self] <= Len(regs[self])
@@ -1916,7 +2356,8 @@ bf_or(self) == /\ pc[self] = "bf_or"
                                rnest, cs, ncs, cnt, snap, queued, fin, bsnap, 
                                alive, errs, pci, opx, iv, pa, hd, tl, old, cur, 
                                nx, cbc, isrt, en, ec, res, gd, fc, dc, newc, 
-                               cidef, cifl, cn, bk, regs, gps >>
+                               cidef, cifl, cn, bk, regs, sci, ci, cac, fa, 
+                               gps >>
 
 bf_w0(self) == /\ pc[self] = "bf_w0"
                /\ kk' = [kk EXCEPT ![self] = 1]
@@ -1927,7 +2368,7 @@ bf_w0(self) == /\ pc[self] = "bf_w0"
                                fin, bsnap, alive, uaf, errs, pci, opx, iv, pa, 
                                hd, tl, old, cur, nx, cbc, isrt, en, ec, wc, 
                                res, gd, fc, dc, newc, cidef, cifl, cn, bk, 
-                               regs, gps, stack >>
+                               regs, sci, ci, cac, fa, gps, stack >>
 
 bf_wait(self) == /\ pc[self] = "bf_wait"
                  /\ IF kk[self] <= Len(regs[self])
@@ -1948,7 +2389,7 @@ bf_wait(self) == /\ pc[self] = "bf_wait"
                                  fin, bsnap, alive, errs, pci, opx, iv, pa, hd, 
                                  tl, old, cur, nx, cbc, isrt, en, ec, wc, res, 
                                  gd, fc, dc, newc, cidef, cifl, cn, bk, regs, 
-                                 gps >>
+                                 sci, ci, cac, fa, gps >>
 
 before_fork(self) == bf_lock(self) \/ bf_or(self) \/ bf_w0(self)
                         \/ bf_wait(self)
@@ -1962,8 +2403,8 @@ af_0(self) == /\ pc[self] = "af_0"
                               slot, func, rnest, cs, ncs, cnt, snap, queued, 
                               fin, bsnap, alive, uaf, errs, pci, opx, iv, pa, 
                               hd, tl, old, cur, nx, cbc, isrt, en, ec, wc, res, 
-                              gd, fc, dc, newc, cidef, cifl, cn, bk, gps, 
-                              stack >>
+                              gd, fc, dc, newc, cidef, cifl, cn, bk, sci, ci, 
+                              cac, fa, gps, stack >>
 
 af_and(self) == /\ pc[self] = "af_and"
                 /\ IF kk[self] <= Len(regs[self])
@@ -1980,8 +2421,8 @@ af_and(self) == /\ pc[self] = "af_and"
                                 func, rnest, cs, ncs, cnt, snap, queued, fin, 
                                 bsnap, alive, errs, pci, opx, iv, pa, hd, tl, 
                                 old, cur, nx, cbc, isrt, en, ec, wc, res, gd, 
-                                fc, dc, newc, cidef, cifl, cn, bk, regs, gps, 
-                                stack >>
+                                fc, dc, newc, cidef, cifl, cn, bk, regs, sci, 
+                                ci, cac, fa, gps, stack >>
 
 af_w0(self) == /\ pc[self] = "af_w0"
                /\ kk' = [kk EXCEPT ![self] = 1]
@@ -1992,7 +2433,7 @@ af_w0(self) == /\ pc[self] = "af_w0"
                                fin, bsnap, alive, uaf, errs, pci, opx, iv, pa, 
                                hd, tl, old, cur, nx, cbc, isrt, en, ec, wc, 
                                res, gd, fc, dc, newc, cidef, cifl, cn, bk, 
-                               regs, gps, stack >>
+                               regs, sci, ci, cac, fa, gps, stack >>
 
 af_wait(self) == /\ pc[self] = "af_wait"
                  /\ IF kk[self] <= Len(regs[self])
@@ -2011,7 +2452,7 @@ af_wait(self) == /\ pc[self] = "af_wait"
                                  fin, bsnap, alive, errs, pci, opx, iv, pa, hd, 
                                  tl, old, cur, nx, cbc, isrt, en, ec, wc, res, 
                                  gd, fc, dc, newc, cidef, cifl, cn, bk, regs, 
-                                 gps, stack >>
+                                 sci, ci, cac, fa, gps, stack >>
 
 af_unl(self) == /\ pc[self] = "af_unl"
                 /\ Drained(self)
@@ -2025,7 +2466,7 @@ af_unl(self) == /\ pc[self] = "af_unl"
                                 bsnap, alive, uaf, errs, pci, opx, iv, pa, hd, 
                                 tl, old, cur, nx, cbc, isrt, en, ec, wc, res, 
                                 gd, fc, dc, newc, cidef, cifl, cn, bk, regs, 
-                                kk, gps >>
+                                kk, sci, ci, cac, fa, gps >>
 
 after_fork_parent(self) == af_0(self) \/ af_and(self) \/ af_w0(self)
                               \/ af_wait(self) \/ af_unl(self)
@@ -2042,7 +2483,8 @@ fl(self) == /\ pc[self] = "fl"
                             cs, ncs, cnt, snap, queued, fin, bsnap, alive, uaf, 
                             errs, pci, opx, iv, pa, hd, tl, old, cur, nx, cbc, 
                             isrt, en, ec, wc, res, gd, fc, dc, newc, cidef, 
-                            cifl, cn, bk, regs, kk, gps, stack >>
+                            cifl, cn, bk, regs, kk, sci, ci, cac, fa, gps, 
+                            stack >>
 
 flusher(self) == fl(self)
 
@@ -2059,7 +2501,7 @@ sw(self) == /\ pc[self] = "sw"
                             cnt, snap, queued, fin, bsnap, alive, uaf, errs, 
                             pci, opx, iv, pa, hd, tl, old, cur, nx, cbc, isrt, 
                             en, ec, wc, res, gd, fc, dc, newc, cidef, cifl, cn, 
-                            bk, regs, kk, gps, stack >>
+                            bk, regs, kk, sci, ci, cac, fa, gps, stack >>
 
 spurw(self) == sw(self)
 
@@ -2072,7 +2514,7 @@ h_idle(self) == /\ pc[self] = "h_idle"
                                 fin, bsnap, alive, uaf, errs, pci, opx, iv, pa, 
                                 hd, tl, old, cur, nx, cbc, isrt, en, ec, wc, 
                                 res, gd, fc, dc, newc, cidef, cifl, cn, bk, 
-                                regs, kk, gps, stack >>
+                                regs, kk, sci, ci, cac, fa, gps, stack >>
 
 h_flags(self) == /\ pc[self] = "h_flags"
                  /\ uaf' = (uaf \/ Dead((FlagsOf(CrOf[self]))))
@@ -2087,8 +2529,8 @@ h_flags(self) == /\ pc[self] = "h_flags"
                                  func, rnest, cs, ncs, cnt, snap, queued, fin, 
                                  bsnap, alive, errs, pci, opx, iv, pa, hd, tl, 
                                  old, cur, nx, cbc, en, ec, wc, res, gd, fc, 
-                                 dc, newc, cidef, cifl, cn, bk, regs, kk, gps, 
-                                 stack >>
+                                 dc, newc, cidef, cifl, cn, bk, regs, kk, sci, 
+                                 ci, cac, fa, gps, stack >>
 
 h_dec0(self) == /\ pc[self] = "h_dec0"
                 /\ Drained(self)
@@ -2102,7 +2544,7 @@ h_dec0(self) == /\ pc[self] = "h_dec0"
                                 bsnap, alive, errs, pci, opx, iv, pa, hd, tl, 
                                 old, cur, nx, cbc, isrt, en, ec, wc, res, gd, 
                                 fc, dc, newc, cidef, cifl, cn, bk, regs, kk, 
-                                gps, stack >>
+                                sci, ci, cac, fa, gps, stack >>
 
 h_mb0(self) == /\ pc[self] = "h_mb0"
                /\ Drained(self)
@@ -2114,7 +2556,7 @@ h_mb0(self) == /\ pc[self] = "h_mb0"
                                fin, bsnap, alive, uaf, errs, pci, opx, iv, pa, 
                                hd, tl, old, cur, nx, cbc, isrt, en, ec, wc, 
                                res, gd, fc, dc, newc, cidef, cifl, cn, bk, 
-                               regs, kk, gps, stack >>
+                               regs, kk, sci, ci, cac, fa, gps, stack >>
 
 h_top(self) == /\ pc[self] = "h_top"
                /\ uaf' = (uaf \/ Dead((FlagsOf(CrOf[self]))))
@@ -2128,7 +2570,7 @@ h_top(self) == /\ pc[self] = "h_top"
                                fin, bsnap, alive, errs, pci, opx, iv, pa, hd, 
                                tl, old, cur, nx, cbc, isrt, en, ec, wc, res, 
                                gd, fc, dc, newc, cidef, cifl, cn, bk, regs, kk, 
-                               gps, stack >>
+                               sci, ci, cac, fa, gps, stack >>
 
 p_or(self) == /\ pc[self] = "p_or"
               /\ Drained(self)
@@ -2141,7 +2583,8 @@ p_or(self) == /\ pc[self] = "p_or"
                               rnest, cs, ncs, cnt, snap, queued, fin, bsnap, 
                               alive, errs, pci, opx, iv, pa, hd, tl, old, cur, 
                               nx, cbc, isrt, en, ec, wc, res, gd, fc, dc, newc, 
-                              cidef, cifl, cn, bk, regs, kk, gps, stack >>
+                              cidef, cifl, cn, bk, regs, kk, sci, ci, cac, fa, 
+                              gps, stack >>
 
 p_wait(self) == /\ pc[self] = "p_wait"
                 /\ uaf' = (uaf \/ Dead((FlagsOf(CrOf[self]))))
@@ -2155,7 +2598,7 @@ p_wait(self) == /\ pc[self] = "p_wait"
                                 fin, bsnap, alive, errs, pci, opx, iv, pa, hd, 
                                 tl, old, cur, nx, cbc, isrt, en, ec, wc, res, 
                                 gd, fc, dc, newc, cidef, cifl, cn, bk, regs, 
-                                kk, gps, stack >>
+                                kk, sci, ci, cac, fa, gps, stack >>
 
 p_and(self) == /\ pc[self] = "p_and"
                /\ Drained(self)
@@ -2168,7 +2611,8 @@ p_and(self) == /\ pc[self] = "p_and"
                                rnest, cs, ncs, cnt, snap, queued, fin, bsnap, 
                                alive, errs, pci, opx, iv, pa, hd, tl, old, cur, 
                                nx, cbc, isrt, en, ec, wc, res, gd, fc, dc, 
-                               newc, cidef, cifl, cn, bk, regs, kk, gps, stack >>
+                               newc, cidef, cifl, cn, bk, regs, kk, sci, ci, 
+                               cac, fa, gps, stack >>
 
 s_e1(self) == /\ pc[self] = "s_e1"
               /\ uaf' = (uaf \/ Dead((NextOf(Hd(CrOf[self])))))
@@ -2183,7 +2627,8 @@ s_e1(self) == /\ pc[self] = "s_e1"
                               rnest, cs, ncs, cnt, snap, queued, fin, bsnap, 
                               alive, errs, pci, opx, iv, pa, hd, tl, old, cur, 
                               nx, cbc, isrt, en, ec, wc, res, gd, fc, dc, newc, 
-                              cidef, cifl, cn, bk, regs, kk, gps, stack >>
+                              cidef, cifl, cn, bk, regs, kk, sci, ci, cac, fa, 
+                              gps, stack >>
 
 s_e2(self) == /\ pc[self] = "s_e2"
               /\ uaf' = (uaf \/ Dead((TailOf(CrOf[self]))))
@@ -2198,7 +2643,8 @@ s_e2(self) == /\ pc[self] = "s_e2"
                               rnest, cs, ncs, cnt, snap, queued, fin, bsnap, 
                               alive, errs, pci, opx, iv, pa, hd, tl, old, cur, 
                               nx, cbc, isrt, en, ec, wc, res, gd, fc, dc, newc, 
-                              cidef, cifl, cn, bk, regs, kk, gps, stack >>
+                              cidef, cifl, cn, bk, regs, kk, sci, ci, cac, fa, 
+                              gps, stack >>
 
 m_gp(self) == /\ pc[self] = "m_gp"
               /\ stack' = [stack EXCEPT ![self] = << [ procedure |->  "synchronize_rcu",
@@ -2211,7 +2657,7 @@ m_gp(self) == /\ pc[self] = "m_gp"
                               fin, bsnap, alive, uaf, errs, pci, opx, iv, pa, 
                               hd, tl, old, cur, nx, cbc, isrt, en, ec, wc, res, 
                               gd, fc, dc, newc, cidef, cifl, cn, bk, regs, kk, 
-                              gps >>
+                              sci, ci, cac, fa, gps >>
 
 s_xh(self) == /\ pc[self] = "s_xh"
               /\ Drained(self)
@@ -2227,7 +2673,8 @@ s_xh(self) == /\ pc[self] = "s_xh"
                               rnest, cs, ncs, cnt, snap, queued, fin, bsnap, 
                               alive, errs, pci, opx, iv, pa, tl, old, cur, nx, 
                               cbc, isrt, en, ec, wc, res, gd, fc, dc, newc, 
-                              cidef, cifl, cn, bk, regs, kk, gps, stack >>
+                              cidef, cifl, cn, bk, regs, kk, sci, ci, cac, fa, 
+                              gps, stack >>
 
 s_lt(self) == /\ pc[self] = "s_lt"
               /\ uaf' = (uaf \/ Dead((TailOf(CrOf[self]))))
@@ -2240,7 +2687,8 @@ s_lt(self) == /\ pc[self] = "s_lt"
                               rnest, cs, ncs, cnt, snap, queued, fin, bsnap, 
                               alive, errs, pci, opx, iv, pa, hd, tl, old, cur, 
                               nx, cbc, isrt, en, ec, wc, res, gd, fc, dc, newc, 
-                              cidef, cifl, cn, bk, regs, kk, gps, stack >>
+                              cidef, cifl, cn, bk, regs, kk, sci, ci, cac, fa, 
+                              gps, stack >>
 
 s_mb(self) == /\ pc[self] = "s_mb"
               /\ Drained(self)
@@ -2251,7 +2699,8 @@ s_mb(self) == /\ pc[self] = "s_mb"
                               rnest, cs, ncs, cnt, snap, queued, fin, bsnap, 
                               alive, uaf, errs, pci, opx, iv, pa, hd, tl, old, 
                               cur, nx, cbc, isrt, en, ec, wc, res, gd, fc, dc, 
-                              newc, cidef, cifl, cn, bk, regs, kk, gps, stack >>
+                              newc, cidef, cifl, cn, bk, regs, kk, sci, ci, 
+                              cac, fa, gps, stack >>
 
 s_xt(self) == /\ pc[self] = "s_xt"
               /\ Drained(self)
@@ -2269,7 +2718,7 @@ s_xt(self) == /\ pc[self] = "s_xt"
                               rnest, cs, ncs, cnt, snap, queued, fin, bsnap, 
                               alive, errs, pci, opx, iv, pa, hd, old, nx, isrt, 
                               en, ec, wc, res, gd, fc, dc, newc, cidef, cifl, 
-                              cn, bk, regs, kk, gps, stack >>
+                              cn, bk, regs, kk, sci, ci, cac, fa, gps, stack >>
 
 h_gp(self) == /\ pc[self] = "h_gp"
               /\ stack' = [stack EXCEPT ![self] = << [ procedure |->  "synchronize_rcu",
@@ -2282,7 +2731,7 @@ h_gp(self) == /\ pc[self] = "h_gp"
                               fin, bsnap, alive, uaf, errs, pci, opx, iv, pa, 
                               hd, tl, old, cur, nx, cbc, isrt, en, ec, wc, res, 
                               gd, fc, dc, newc, cidef, cifl, cn, bk, regs, kk, 
-                              gps >>
+                              sci, ci, cac, fa, gps >>
 
 it_ld(self) == /\ pc[self] = "it_ld"
                /\ nx' = [nx EXCEPT ![self] = Rd(self, (NextOf(cur[self])))]
@@ -2297,7 +2746,7 @@ it_ld(self) == /\ pc[self] = "it_ld"
                                fin, bsnap, alive, errs, pci, opx, iv, pa, hd, 
                                tl, old, cur, cbc, isrt, en, ec, wc, res, gd, 
                                fc, dc, newc, cidef, cifl, cn, bk, regs, kk, 
-                               gps, stack >>
+                               sci, ci, cac, fa, gps, stack >>
 
 it_re(self) == /\ pc[self] = "it_re"
                /\ cn' = [cn EXCEPT ![self] = Re[cur[self]]]
@@ -2313,7 +2762,7 @@ it_re(self) == /\ pc[self] = "it_re"
                                bsnap, alive, uaf, errs, pci, opx, iv, pa, hd, 
                                tl, old, cur, nx, cbc, isrt, en, ec, wc, res, 
                                gd, fc, dc, newc, cidef, cifl, bk, regs, kk, 
-                               gps >>
+                               sci, ci, cac, fa, gps >>
 
 it_rr(self) == /\ pc[self] = "it_rr"
                /\ queued' = (queued \cup {cn[self]})
@@ -2325,7 +2774,7 @@ it_rr(self) == /\ pc[self] = "it_rr"
                                bsnap, alive, uaf, errs, pci, opx, iv, pa, hd, 
                                tl, old, cur, nx, cbc, isrt, en, ec, wc, res, 
                                gd, fc, dc, newc, cidef, cifl, cn, bk, regs, kk, 
-                               gps, stack >>
+                               sci, ci, cac, fa, gps, stack >>
 
 it_end(self) == /\ pc[self] = "it_end"
                 /\ fin' = (fin \cup {cur[self]})
@@ -2340,8 +2789,8 @@ it_end(self) == /\ pc[self] = "it_end"
                                 slot, func, rnest, cs, ncs, cnt, snap, queued, 
                                 bsnap, alive, uaf, errs, pci, opx, iv, pa, hd, 
                                 tl, old, nx, isrt, en, ec, wc, res, gd, fc, dc, 
-                                newc, cidef, cifl, cn, bk, regs, kk, gps, 
-                                stack >>
+                                newc, cidef, cifl, cn, bk, regs, kk, sci, ci, 
+                                cac, fa, gps, stack >>
 
 it_inv(self) == /\ pc[self] = "it_inv"
                 /\ IF cur[self] \in Works
@@ -2374,7 +2823,8 @@ it_inv(self) == /\ pc[self] = "it_inv"
                                 slot, func, rnest, cs, ncs, snap, queued, fin, 
                                 bsnap, alive, uaf, pci, opx, iv, pa, hd, tl, 
                                 old, cur, nx, cbc, isrt, en, ec, wc, res, gd, 
-                                fc, dc, newc, cidef, cifl, cn, regs, kk, gps >>
+                                fc, dc, newc, cidef, cifl, cn, regs, kk, sci, 
+                                ci, cac, fa, gps >>
 
 it_nxt(self) == /\ pc[self] = "it_nxt"
                 /\ cbc' = [cbc EXCEPT ![self] = cbc[self] + 1]
@@ -2387,8 +2837,8 @@ it_nxt(self) == /\ pc[self] = "it_nxt"
                                 slot, func, rnest, cs, ncs, cnt, snap, queued, 
                                 fin, bsnap, alive, uaf, errs, pci, opx, iv, pa, 
                                 hd, tl, old, nx, isrt, en, ec, wc, res, gd, fc, 
-                                dc, newc, cidef, cifl, cn, bk, regs, kk, gps, 
-                                stack >>
+                                dc, newc, cidef, cifl, cn, bk, regs, kk, sci, 
+                                ci, cac, fa, gps, stack >>
 
 h_sub(self) == /\ pc[self] = "h_sub"
                /\ Drained(self)
@@ -2401,7 +2851,8 @@ h_sub(self) == /\ pc[self] = "h_sub"
                                rnest, cs, ncs, cnt, snap, queued, fin, bsnap, 
                                alive, errs, pci, opx, iv, pa, hd, tl, old, cur, 
                                nx, cbc, isrt, en, ec, wc, res, gd, fc, dc, 
-                               newc, cidef, cifl, cn, bk, regs, kk, gps, stack >>
+                               newc, cidef, cifl, cn, bk, regs, kk, sci, ci, 
+                               cac, fa, gps, stack >>
 
 h_stop(self) == /\ pc[self] = "h_stop"
                 /\ uaf' = (uaf \/ Dead((FlagsOf(CrOf[self]))))
@@ -2423,7 +2874,8 @@ h_stop(self) == /\ pc[self] = "h_stop"
                                 slot, func, rnest, cs, ncs, cnt, snap, queued, 
                                 fin, bsnap, alive, errs, pci, opx, iv, pa, old, 
                                 isrt, en, ec, wc, res, gd, fc, dc, newc, cidef, 
-                                cifl, cn, bk, regs, kk, gps, stack >>
+                                cifl, cn, bk, regs, kk, sci, ci, cac, fa, gps, 
+                                stack >>
 
 h_e1(self) == /\ pc[self] = "h_e1"
               /\ uaf' = (uaf \/ Dead((NextOf(Hd(CrOf[self])))))
@@ -2436,7 +2888,8 @@ h_e1(self) == /\ pc[self] = "h_e1"
                               rnest, cs, ncs, cnt, snap, queued, fin, bsnap, 
                               alive, errs, pci, opx, iv, pa, hd, tl, old, cur, 
                               nx, cbc, isrt, en, ec, wc, res, gd, fc, dc, newc, 
-                              cidef, cifl, cn, bk, regs, kk, gps, stack >>
+                              cidef, cifl, cn, bk, regs, kk, sci, ci, cac, fa, 
+                              gps, stack >>
 
 h_e2(self) == /\ pc[self] = "h_e2"
               /\ uaf' = (uaf \/ Dead((TailOf(CrOf[self]))))
@@ -2449,7 +2902,8 @@ h_e2(self) == /\ pc[self] = "h_e2"
                               rnest, cs, ncs, cnt, snap, queued, fin, bsnap, 
                               alive, errs, pci, opx, iv, pa, hd, tl, old, cur, 
                               nx, cbc, isrt, en, ec, wc, res, gd, fc, dc, newc, 
-                              cidef, cifl, cn, bk, regs, kk, gps, stack >>
+                              cidef, cifl, cn, bk, regs, kk, sci, ci, cac, fa, 
+                              gps, stack >>
 
 w_mb(self) == /\ pc[self] = "w_mb"
               /\ Drained(self)
@@ -2460,7 +2914,8 @@ w_mb(self) == /\ pc[self] = "w_mb"
                               rnest, cs, ncs, cnt, snap, queued, fin, bsnap, 
                               alive, uaf, errs, pci, opx, iv, pa, hd, tl, old, 
                               cur, nx, cbc, isrt, en, ec, wc, res, gd, fc, dc, 
-                              newc, cidef, cifl, cn, bk, regs, kk, gps, stack >>
+                              newc, cidef, cifl, cn, bk, regs, kk, sci, ci, 
+                              cac, fa, gps, stack >>
 
 w_ld(self) == /\ pc[self] = "w_ld"
               /\ uaf' = (uaf \/ Dead((FutexOf(CrOf[self]))))
@@ -2473,7 +2928,8 @@ w_ld(self) == /\ pc[self] = "w_ld"
                               rnest, cs, ncs, cnt, snap, queued, fin, bsnap, 
                               alive, errs, pci, opx, iv, pa, hd, tl, old, cur, 
                               nx, cbc, isrt, en, ec, wc, res, gd, fc, dc, newc, 
-                              cidef, cifl, cn, bk, regs, kk, gps, stack >>
+                              cidef, cifl, cn, bk, regs, kk, sci, ci, cac, fa, 
+                              gps, stack >>
 
 w_fwait(self) == /\ pc[self] = "w_fwait"
                  /\ Drained(self)
@@ -2491,8 +2947,8 @@ w_fwait(self) == /\ pc[self] = "w_fwait"
                                  rnest, cs, ncs, cnt, snap, queued, fin, bsnap, 
                                  alive, errs, pci, opx, iv, pa, hd, tl, old, 
                                  cur, nx, cbc, isrt, en, ec, wc, res, gd, fc, 
-                                 dc, newc, cidef, cifl, cn, bk, regs, kk, gps, 
-                                 stack >>
+                                 dc, newc, cidef, cifl, cn, bk, regs, kk, sci, 
+                                 ci, cac, fa, gps, stack >>
 
 w_fwoke(self) == /\ pc[self] = "w_fwoke"
                  /\ self \notin fsleep
@@ -2505,7 +2961,7 @@ w_fwoke(self) == /\ pc[self] = "w_fwoke"
                                  bsnap, alive, uaf, errs, pci, opx, iv, pa, hd, 
                                  tl, old, cur, nx, cbc, isrt, en, ec, wc, res, 
                                  gd, fc, dc, newc, cidef, cifl, cn, bk, regs, 
-                                 kk, gps, stack >>
+                                 kk, sci, ci, cac, fa, gps, stack >>
 
 w_dec(self) == /\ pc[self] = "w_dec"
                /\ Drained(self)
@@ -2518,7 +2974,8 @@ w_dec(self) == /\ pc[self] = "w_dec"
                                rnest, cs, ncs, cnt, snap, queued, fin, bsnap, 
                                alive, errs, pci, opx, iv, pa, hd, tl, old, cur, 
                                nx, cbc, isrt, en, ec, wc, res, gd, fc, dc, 
-                               newc, cidef, cifl, cn, bk, regs, kk, gps, stack >>
+                               newc, cidef, cifl, cn, bk, regs, kk, sci, ci, 
+                               cac, fa, gps, stack >>
 
 w_mb2(self) == /\ pc[self] = "w_mb2"
                /\ Drained(self)
@@ -2530,7 +2987,7 @@ w_mb2(self) == /\ pc[self] = "w_mb2"
                                fin, bsnap, alive, uaf, errs, pci, opx, iv, pa, 
                                hd, tl, old, cur, nx, cbc, isrt, en, ec, wc, 
                                res, gd, fc, dc, newc, cidef, cifl, cn, bk, 
-                               regs, kk, gps, stack >>
+                               regs, kk, sci, ci, cac, fa, gps, stack >>
 
 o_mb(self) == /\ pc[self] = "o_mb"
               /\ Drained(self)
@@ -2541,7 +2998,8 @@ o_mb(self) == /\ pc[self] = "o_mb"
                               rnest, cs, ncs, cnt, snap, queued, fin, bsnap, 
                               alive, uaf, errs, pci, opx, iv, pa, hd, tl, old, 
                               cur, nx, cbc, isrt, en, ec, wc, res, gd, fc, dc, 
-                              newc, cidef, cifl, cn, bk, regs, kk, gps, stack >>
+                              newc, cidef, cifl, cn, bk, regs, kk, sci, ci, 
+                              cac, fa, gps, stack >>
 
 o_st(self) == /\ pc[self] = "o_st"
               /\ IF TSO
@@ -2558,7 +3016,8 @@ o_st(self) == /\ pc[self] = "o_st"
                               cs, ncs, cnt, snap, queued, fin, bsnap, alive, 
                               errs, pci, opx, iv, pa, hd, tl, old, cur, nx, 
                               cbc, isrt, en, ec, wc, res, gd, fc, dc, newc, 
-                              cidef, cifl, cn, bk, regs, kk, gps, stack >>
+                              cidef, cifl, cn, bk, regs, kk, sci, ci, cac, fa, 
+                              gps, stack >>
 
 o_or(self) == /\ pc[self] = "o_or"
               /\ Drained(self)
@@ -2571,7 +3030,8 @@ o_or(self) == /\ pc[self] = "o_or"
                               rnest, cs, ncs, cnt, snap, queued, fin, bsnap, 
                               alive, errs, pci, opx, iv, pa, hd, tl, old, cur, 
                               nx, cbc, isrt, en, ec, wc, res, gd, fc, dc, newc, 
-                              cidef, cifl, cn, bk, regs, kk, gps, stack >>
+                              cidef, cifl, cn, bk, regs, kk, sci, ci, cac, fa, 
+                              gps, stack >>
 
 h_exit(self) == /\ pc[self] = "h_exit"
                 /\ Drained(self)
@@ -2583,7 +3043,7 @@ h_exit(self) == /\ pc[self] = "h_exit"
                                 fin, bsnap, alive, uaf, errs, pci, opx, iv, pa, 
                                 hd, tl, old, cur, nx, cbc, isrt, en, ec, wc, 
                                 res, gd, fc, dc, newc, cidef, cifl, cn, bk, 
-                                regs, kk, gps, stack >>
+                                regs, kk, sci, ci, cac, fa, gps, stack >>
 
 helper(self) == h_idle(self) \/ h_flags(self) \/ h_dec0(self)
                    \/ h_mb0(self) \/ h_top(self) \/ p_or(self)
@@ -2613,7 +3073,7 @@ t_top(self) == /\ pc[self] = "t_top"
                                      /\ pc' = [pc EXCEPT ![self] = "t_top"]
                                      /\ UNCHANGED << tcrd, mycpu, snap, bsnap, 
                                                      alive, en, res, fc, cidef, 
-                                                     cifl, cn, bk, stack >>
+                                                     cifl, cn, bk, sci, stack >>
                                 ELSE /\ IF opx'[self].op = "runlock"
                                            THEN /\ rnest' = [rnest EXCEPT ![self] = rnest[self] - 1]
                                                 /\ pci' = [pci EXCEPT ![self] = pci[self] + 1]
@@ -2628,7 +3088,7 @@ t_top(self) == /\ pc[self] = "t_top"
                                                                 alive, en, res, 
                                                                 fc, cidef, 
                                                                 cifl, cn, bk, 
-                                                                stack >>
+                                                                sci, stack >>
                                            ELSE /\ IF opx'[self].op = "cpu"
                                                       THEN /\ mycpu' = [mycpu EXCEPT ![self] = opx'[self].c]
                                                            /\ pci' = [pci EXCEPT ![self] = pci[self] + 1]
@@ -2645,114 +3105,148 @@ t_top(self) == /\ pc[self] = "t_top"
                                                                            cifl, 
                                                                            cn, 
                                                                            bk, 
+                                                                           sci, 
                                                                            stack >>
-                                                      ELSE /\ IF opx'[self].op = "call"
-                                                                 THEN /\ cn' = [cn EXCEPT ![self] = opx'[self].n]
-                                                                      /\ snap' = [snap EXCEPT ![opx'[self].n] = cs]
-                                                                      /\ UNCHANGED << bsnap, 
+                                                      ELSE /\ IF opx'[self].op \in {"offline", "online"}
+                                                                 THEN /\ pci' = [pci EXCEPT ![self] = pci[self] + 1]
+                                                                      /\ pc' = [pc EXCEPT ![self] = "t_top"]
+                                                                      /\ UNCHANGED << acc, 
+                                                                                      tcrd, 
+                                                                                      snap, 
+                                                                                      bsnap, 
                                                                                       alive, 
                                                                                       en, 
+                                                                                      res, 
                                                                                       fc, 
                                                                                       cidef, 
                                                                                       cifl, 
-                                                                                      bk >>
-                                                                 ELSE /\ IF opx'[self].op = "barrier"
-                                                                            THEN /\ bk' = [bk EXCEPT ![self] = KName(self, pci[self])]
-                                                                                 /\ alive' = [alive EXCEPT ![KName(self, pci[self])] = "yes"]
-                                                                                 /\ bsnap' = [bsnap EXCEPT ![self] = queued]
-                                                                                 /\ UNCHANGED << en, 
-                                                                                                 fc, 
-                                                                                                 cidef, 
-                                                                                                 cifl >>
-                                                                            ELSE /\ IF opx'[self].op = "free"
-                                                                                       THEN /\ fc' = [fc EXCEPT ![self] = slot[opx'[self].x]]
-                                                                                            /\ UNCHANGED << en, 
-                                                                                                            cidef, 
-                                                                                                            cifl >>
-                                                                                       ELSE /\ IF opx'[self].op = "setcpu"
-                                                                                                  THEN /\ en' = [en EXCEPT ![self] = IF opx'[self].x = NULL THEN NULL ELSE slot[opx'[self].x]]
-                                                                                                       /\ UNCHANGED << cidef, 
-                                                                                                                       cifl >>
-                                                                                                  ELSE /\ IF opx'[self].op = "create"
-                                                                                                             THEN /\ cidef' = [cidef EXCEPT ![self] = FALSE]
-                                                                                                                  /\ cifl' = [cifl EXCEPT ![self] = opx'[self].f]
-                                                                                                             ELSE /\ TRUE
-                                                                                                                  /\ UNCHANGED << cidef, 
-                                                                                                                                  cifl >>
-                                                                                                       /\ en' = en
-                                                                                            /\ fc' = fc
+                                                                                      cn, 
+                                                                                      bk, 
+                                                                                      sci, 
+                                                                                      stack >>
+                                                                 ELSE /\ IF opx'[self].op = "call"
+                                                                            THEN /\ cn' = [cn EXCEPT ![self] = opx'[self].n]
+                                                                                 /\ snap' = [snap EXCEPT ![opx'[self].n] = cs]
                                                                                  /\ UNCHANGED << bsnap, 
                                                                                                  alive, 
-                                                                                                 bk >>
-                                                                      /\ UNCHANGED << snap, 
-                                                                                      cn >>
-                                                           /\ res' = [res EXCEPT ![self] = "-"]
-                                                           /\ acc' = Ev(self, "call", IF opx'[self].op = "call" THEN opx'[self].n ELSE IF opx'[self].op \in {"free", "setcpu", "setthr"} /\ opx'[self].x # NULL THEN slot[opx'[self].x] ELSE "-",
-                                                                        opx'[self].op, "-", "-")
-                                                           /\ IF opx'[self].op = "call"
-                                                                 THEN /\ stack' = [stack EXCEPT ![self] = << [ procedure |->  "call_rcu",
-                                                                                                               pc        |->  "t_ret" ] >>
-                                                                                                           \o stack[self]]
-                                                                      /\ pc' = [pc EXCEPT ![self] = "cr_lock"]
-                                                                      /\ tcrd' = tcrd
-                                                                 ELSE /\ IF opx'[self].op = "sync"
-                                                                            THEN /\ stack' = [stack EXCEPT ![self] = << [ procedure |->  "synchronize_rcu",
+                                                                                                 en, 
+                                                                                                 fc, 
+                                                                                                 cidef, 
+                                                                                                 cifl, 
+                                                                                                 bk, 
+                                                                                                 sci >>
+                                                                            ELSE /\ IF opx'[self].op = "barrier"
+                                                                                       THEN /\ bk' = [bk EXCEPT ![self] = KName(self, pci[self])]
+                                                                                            /\ alive' = [alive EXCEPT ![KName(self, pci[self])] = "yes"]
+                                                                                            /\ bsnap' = [bsnap EXCEPT ![self] = queued]
+                                                                                            /\ UNCHANGED << en, 
+                                                                                                            fc, 
+                                                                                                            cidef, 
+                                                                                                            cifl, 
+                                                                                                            sci >>
+                                                                                       ELSE /\ IF opx'[self].op = "free"
+                                                                                                  THEN /\ fc' = [fc EXCEPT ![self] = slot[opx'[self].x]]
+                                                                                                       /\ UNCHANGED << en, 
+                                                                                                                       cidef, 
+                                                                                                                       cifl, 
+                                                                                                                       sci >>
+                                                                                                  ELSE /\ IF opx'[self].op = "setcpu"
+                                                                                                             THEN /\ en' = [en EXCEPT ![self] = IF opx'[self].x = NULL THEN NULL ELSE slot[opx'[self].x]]
+                                                                                                                  /\ sci' = [sci EXCEPT ![self] = opx'[self].c]
+                                                                                                                  /\ UNCHANGED << cidef, 
+                                                                                                                                  cifl >>
+                                                                                                             ELSE /\ IF opx'[self].op = "create"
+                                                                                                                        THEN /\ cidef' = [cidef EXCEPT ![self] = FALSE]
+                                                                                                                             /\ cifl' = [cifl EXCEPT ![self] = opx'[self].f]
+                                                                                                                        ELSE /\ TRUE
+                                                                                                                             /\ UNCHANGED << cidef, 
+                                                                                                                                             cifl >>
+                                                                                                                  /\ UNCHANGED << en, 
+                                                                                                                                  sci >>
+                                                                                                       /\ fc' = fc
+                                                                                            /\ UNCHANGED << bsnap, 
+                                                                                                            alive, 
+                                                                                                            bk >>
+                                                                                 /\ UNCHANGED << snap, 
+                                                                                                 cn >>
+                                                                      /\ res' = [res EXCEPT ![self] = "-"]
+                                                                      /\ acc' = Ev(self, "call", IF opx'[self].op = "call" THEN opx'[self].n ELSE IF opx'[self].op \in {"free", "setcpu", "setthr"} /\ opx'[self].x # NULL THEN slot[opx'[self].x] ELSE "-",
+                                                                                   opx'[self].op, "-", "-")
+                                                                      /\ IF opx'[self].op = "call"
+                                                                            THEN /\ stack' = [stack EXCEPT ![self] = << [ procedure |->  "call_rcu",
                                                                                                                           pc        |->  "t_ret" ] >>
                                                                                                                       \o stack[self]]
-                                                                                 /\ pc' = [pc EXCEPT ![self] = "gp_b"]
+                                                                                 /\ pc' = [pc EXCEPT ![self] = "cr_lock"]
                                                                                  /\ tcrd' = tcrd
-                                                                            ELSE /\ IF opx'[self].op = "getdef"
-                                                                                       THEN /\ stack' = [stack EXCEPT ![self] = << [ procedure |->  "get_default",
+                                                                            ELSE /\ IF opx'[self].op = "sync"
+                                                                                       THEN /\ stack' = [stack EXCEPT ![self] = << [ procedure |->  "synchronize_rcu",
                                                                                                                                      pc        |->  "t_ret" ] >>
                                                                                                                                  \o stack[self]]
-                                                                                            /\ pc' = [pc EXCEPT ![self] = "gd_ld"]
+                                                                                            /\ pc' = [pc EXCEPT ![self] = "gp_b"]
                                                                                             /\ tcrd' = tcrd
-                                                                                       ELSE /\ IF opx'[self].op = "create"
-                                                                                                  THEN /\ pc' = [pc EXCEPT ![self] = "t_crl"]
-                                                                                                       /\ UNCHANGED << tcrd, 
-                                                                                                                       stack >>
-                                                                                                  ELSE /\ IF opx'[self].op = "setthr"
-                                                                                                             THEN /\ tcrd' = [tcrd EXCEPT ![self] = IF opx'[self].x = NULL THEN NULL ELSE slot[opx'[self].x]]
-                                                                                                                  /\ pc' = [pc EXCEPT ![self] = "t_ret"]
-                                                                                                                  /\ stack' = stack
-                                                                                                             ELSE /\ IF opx'[self].op = "setcpu"
-                                                                                                                        THEN /\ stack' = [stack EXCEPT ![self] = << [ procedure |->  "set_cpu",
-                                                                                                                                                                      pc        |->  "t_ret" ] >>
-                                                                                                                                                                  \o stack[self]]
-                                                                                                                             /\ pc' = [pc EXCEPT ![self] = "sc_lock"]
-                                                                                                                        ELSE /\ IF opx'[self].op = "free"
-                                                                                                                                   THEN /\ stack' = [stack EXCEPT ![self] = << [ procedure |->  "data_free",
+                                                                                       ELSE /\ IF opx'[self].op = "getdef"
+                                                                                                  THEN /\ stack' = [stack EXCEPT ![self] = << [ procedure |->  "get_default",
+                                                                                                                                                pc        |->  "t_ret" ] >>
+                                                                                                                                            \o stack[self]]
+                                                                                                       /\ pc' = [pc EXCEPT ![self] = "gd_ld"]
+                                                                                                       /\ tcrd' = tcrd
+                                                                                                  ELSE /\ IF opx'[self].op = "create"
+                                                                                                             THEN /\ pc' = [pc EXCEPT ![self] = "t_crl"]
+                                                                                                                  /\ UNCHANGED << tcrd, 
+                                                                                                                                  stack >>
+                                                                                                             ELSE /\ IF opx'[self].op = "setthr"
+                                                                                                                        THEN /\ tcrd' = [tcrd EXCEPT ![self] = IF opx'[self].x = NULL THEN NULL ELSE slot[opx'[self].x]]
+                                                                                                                             /\ pc' = [pc EXCEPT ![self] = "t_ret"]
+                                                                                                                             /\ stack' = stack
+                                                                                                                        ELSE /\ IF opx'[self].op = "setcpu"
+                                                                                                                                   THEN /\ stack' = [stack EXCEPT ![self] = << [ procedure |->  "set_cpu",
                                                                                                                                                                                  pc        |->  "t_ret" ] >>
                                                                                                                                                                              \o stack[self]]
-                                                                                                                                        /\ pc' = [pc EXCEPT ![self] = "f_chk"]
-                                                                                                                                   ELSE /\ IF opx'[self].op = "barrier"
-                                                                                                                                              THEN /\ stack' = [stack EXCEPT ![self] = << [ procedure |->  "barrier",
+                                                                                                                                        /\ pc' = [pc EXCEPT ![self] = "sc_lock"]
+                                                                                                                                   ELSE /\ IF opx'[self].op = "createall"
+                                                                                                                                              THEN /\ stack' = [stack EXCEPT ![self] = << [ procedure |->  "create_all",
                                                                                                                                                                                             pc        |->  "t_ret" ] >>
                                                                                                                                                                                         \o stack[self]]
-                                                                                                                                                   /\ pc' = [pc EXCEPT ![self] = "b_lock"]
-                                                                                                                                              ELSE /\ IF opx'[self].op = "pause"
-                                                                                                                                                         THEN /\ stack' = [stack EXCEPT ![self] = << [ procedure |->  "before_fork",
+                                                                                                                                                   /\ pc' = [pc EXCEPT ![self] = "ca_lock"]
+                                                                                                                                              ELSE /\ IF opx'[self].op = "freeall"
+                                                                                                                                                         THEN /\ stack' = [stack EXCEPT ![self] = << [ procedure |->  "free_all",
                                                                                                                                                                                                        pc        |->  "t_ret" ] >>
                                                                                                                                                                                                    \o stack[self]]
-                                                                                                                                                              /\ pc' = [pc EXCEPT ![self] = "bf_lock"]
-                                                                                                                                                         ELSE /\ stack' = [stack EXCEPT ![self] = << [ procedure |->  "after_fork_parent",
-                                                                                                                                                                                                       pc        |->  "t_ret" ] >>
-                                                                                                                                                                                                   \o stack[self]]
-                                                                                                                                                              /\ pc' = [pc EXCEPT ![self] = "af_0"]
-                                                                                                                  /\ tcrd' = tcrd
-                                                           /\ UNCHANGED << mycpu, 
-                                                                           pci >>
+                                                                                                                                                              /\ pc' = [pc EXCEPT ![self] = "fa_len"]
+                                                                                                                                                         ELSE /\ IF opx'[self].op = "free"
+                                                                                                                                                                    THEN /\ stack' = [stack EXCEPT ![self] = << [ procedure |->  "data_free",
+                                                                                                                                                                                                                  pc        |->  "t_ret" ] >>
+                                                                                                                                                                                                              \o stack[self]]
+                                                                                                                                                                         /\ pc' = [pc EXCEPT ![self] = "f_chk"]
+                                                                                                                                                                    ELSE /\ IF opx'[self].op = "barrier"
+                                                                                                                                                                               THEN /\ stack' = [stack EXCEPT ![self] = << [ procedure |->  "barrier",
+                                                                                                                                                                                                                             pc        |->  "t_ret" ] >>
+                                                                                                                                                                                                                         \o stack[self]]
+                                                                                                                                                                                    /\ pc' = [pc EXCEPT ![self] = "b_lock"]
+                                                                                                                                                                               ELSE /\ IF opx'[self].op = "pause"
+                                                                                                                                                                                          THEN /\ stack' = [stack EXCEPT ![self] = << [ procedure |->  "before_fork",
+                                                                                                                                                                                                                                        pc        |->  "t_ret" ] >>
+                                                                                                                                                                                                                                    \o stack[self]]
+                                                                                                                                                                                               /\ pc' = [pc EXCEPT ![self] = "bf_lock"]
+                                                                                                                                                                                          ELSE /\ stack' = [stack EXCEPT ![self] = << [ procedure |->  "after_fork_parent",
+                                                                                                                                                                                                                                        pc        |->  "t_ret" ] >>
+                                                                                                                                                                                                                                    \o stack[self]]
+                                                                                                                                                                                               /\ pc' = [pc EXCEPT ![self] = "af_0"]
+                                                                                                                             /\ tcrd' = tcrd
+                                                                      /\ pci' = pci
+                                                           /\ mycpu' = mycpu
                                                 /\ UNCHANGED << rnest, cs >>
                                      /\ ncs' = ncs
                      ELSE /\ pc' = [pc EXCEPT ![self] = "t_exit"]
                           /\ UNCHANGED << acc, tcrd, mycpu, rnest, cs, ncs, 
                                           snap, bsnap, alive, pci, opx, en, 
-                                          res, fc, cidef, cifl, cn, bk, stack >>
+                                          res, fc, cidef, cifl, cn, bk, sci, 
+                                          stack >>
                /\ UNCHANGED << mem, sb, lock, fsleep, wloc, spur, wkind, 
                                crlist, nhelp, started, cpulen, slot, func, cnt, 
                                queued, fin, uaf, errs, iv, pa, hd, tl, old, 
                                cur, nx, cbc, isrt, ec, wc, gd, dc, newc, regs, 
-                               kk, gps >>
+                               kk, ci, cac, fa, gps >>
 
 t_ret(self) == /\ pc[self] = "t_ret"
                /\ IF opx[self].op = "call"
@@ -2774,7 +3268,8 @@ t_ret(self) == /\ pc[self] = "t_ret"
                                slot, func, rnest, cs, ncs, cnt, snap, fin, 
                                bsnap, alive, uaf, opx, iv, pa, hd, tl, old, 
                                cur, nx, cbc, isrt, en, ec, wc, res, gd, fc, dc, 
-                               newc, cidef, cifl, cn, bk, regs, kk, gps, stack >>
+                               newc, cidef, cifl, cn, bk, regs, kk, sci, ci, 
+                               cac, fa, gps, stack >>
 
 t_crl(self) == /\ pc[self] = "t_crl"
                /\ Drained(self) /\ lock = "free"
@@ -2789,7 +3284,8 @@ t_crl(self) == /\ pc[self] = "t_crl"
                                rnest, cs, ncs, cnt, snap, queued, fin, bsnap, 
                                alive, uaf, errs, pci, opx, iv, pa, hd, tl, old, 
                                cur, nx, cbc, isrt, en, ec, wc, res, gd, fc, dc, 
-                               newc, cidef, cifl, cn, bk, regs, kk, gps >>
+                               newc, cidef, cifl, cn, bk, regs, kk, sci, ci, 
+                               cac, fa, gps >>
 
 t_cru(self) == /\ pc[self] = "t_cru"
                /\ slot' = [slot EXCEPT ![opx[self].x] = newc[self]]
@@ -2803,7 +3299,8 @@ t_cru(self) == /\ pc[self] = "t_cru"
                                rnest, cs, ncs, cnt, snap, queued, fin, bsnap, 
                                alive, uaf, errs, pci, opx, iv, pa, hd, tl, old, 
                                cur, nx, cbc, isrt, en, ec, wc, gd, fc, dc, 
-                               newc, cidef, cifl, cn, bk, regs, kk, gps, stack >>
+                               newc, cidef, cifl, cn, bk, regs, kk, sci, ci, 
+                               cac, fa, gps, stack >>
 
 t_exit(self) == /\ pc[self] = "t_exit"
                 /\ Drained(self)
@@ -2815,7 +3312,7 @@ t_exit(self) == /\ pc[self] = "t_exit"
                                 fin, bsnap, alive, uaf, errs, pci, opx, iv, pa, 
                                 hd, tl, old, cur, nx, cbc, isrt, en, ec, wc, 
                                 res, gd, fc, dc, newc, cidef, cifl, cn, bk, 
-                                regs, kk, gps, stack >>
+                                regs, kk, sci, ci, cac, fa, gps, stack >>
 
 thr(self) == t_top(self) \/ t_ret(self) \/ t_crl(self) \/ t_cru(self)
                 \/ t_exit(self)
@@ -2824,6 +3321,7 @@ Next == (\E self \in ProcSet:  \/ synchronize_rcu(self) \/ wake(self)
                                \/ enqueue(self) \/ data_init(self)
                                \/ get_default(self) \/ call_rcu(self)
                                \/ set_cpu(self) \/ data_free(self)
+                               \/ create_all(self) \/ free_all(self)
                                \/ barrier_complete(self) \/ barrier(self)
                                \/ before_fork(self)
                                \/ after_fork_parent(self))
@@ -2847,6 +3345,8 @@ Spec == /\ Init /\ [][Next]_vars
                                  /\ WF_vars(synchronize_rcu(self))
                                  /\ WF_vars(get_default(self))
                                  /\ WF_vars(set_cpu(self))
+                                 /\ WF_vars(create_all(self))
+                                 /\ WF_vars(free_all(self))
                                  /\ WF_vars(data_free(self))
                                  /\ WF_vars(barrier(self))
                                  /\ WF_vars(before_fork(self))
